@@ -1,75 +1,1672 @@
-//! temporary probe (will be replaced by the real harness)
+//! C20 — backend independence.  The same generic code (`B: Matrix<f64>`) is instantiated at
+//! DenseMatrix<f64>, ndarray::Array2<f64> and nalgebra::DMatrix<f64>.
+//!
+//! * correspondence: every BaseMatrix / BaseVector / MatrixStats / MatrixPreprocessing /
+//!   HighOrderOperations method of every backend, on operands in standard and in transposed
+//!   (non-standard) layout, against ONE model — C03's executable model of the dense matrix — through
+//!   the abstraction "logical view" (shape + entries read by `get`), see coq/theories/C20/Corr.v;
+//! * search: (1) the same observations compared ACROSS the backends and layouts, (2) oracles written
+//!   from the property text on the logical view (row-major flatten / reshape after a transpose,
+//!   sign- and orientation-independence of min / max / dot / norms, shape mismatches handled alike),
+//!   (3) the decompositions and (4) the deterministic estimators on identical data across the three
+//!   backends, each under a watchdog.
 use nalgebra::DMatrix;
 use ndarray::Array2;
+use serde_json::{json, Value};
+use smartcore::linalg::high_order::HighOrderOperations;
 use smartcore::linalg::naive::dense_matrix::DenseMatrix;
-use smartcore::linalg::Matrix;
+use smartcore::linalg::stats::{MatrixPreprocessing, MatrixStats};
+use smartcore::linalg::{BaseMatrix, BaseVector, Matrix};
 use vharness::*;
 
-type Rows = Vec<Vec<f64>>;
-trait Mk: Matrix<f64> {
+
+pub type Rows = Vec<Vec<f64>>;
+
+// ------------------------------------------------------------------------------------------
+// backends
+// ------------------------------------------------------------------------------------------
+pub trait Bk: Matrix<f64> + Send + Sync + 'static {
+    const NAME: &'static str;
     fn mk(rows: &Rows) -> Self;
-}
-impl Mk for DenseMatrix<f64> {
-    fn mk(rows: &Rows) -> Self {
-        dense(rows)
+    /// an operand with the same logical content whose storage is not contiguous (only ndarray can own
+    /// such an array: every second row and column of a larger allocation); the others build normally
+    fn mk_strided(rows: &Rows) -> Self {
+        Self::mk(rows)
+    }
+    fn vmk_strided(v: &[f64]) -> Self::RowVector {
+        <Self::RowVector as BaseVector<f64>>::from_array(v)
     }
 }
-impl Mk for Array2<f64> {
+impl Bk for DenseMatrix<f64> {
+    const NAME: &'static str = "dense";
     fn mk(rows: &Rows) -> Self {
-        let n = rows.len();
-        let p = rows[0].len();
-        Array2::from_shape_vec((n, p), rows.iter().flatten().cloned().collect()).unwrap()
+        DenseMatrix::from_2d_vec(rows)
     }
 }
-impl Mk for DMatrix<f64> {
+impl Bk for Array2<f64> {
+    const NAME: &'static str = "ndarray";
     fn mk(rows: &Rows) -> Self {
-        let n = rows.len();
-        let p = rows[0].len();
-        DMatrix::from_row_slice(n, p, &rows.iter().flatten().cloned().collect::<Vec<f64>>())
+        let (n, p) = shape_of(rows);
+        Array2::from_shape_vec((n, p), flat(rows)).unwrap()
+    }
+    fn mk_strided(rows: &Rows) -> Self {
+        let (n, p) = shape_of(rows);
+        let mut big = Array2::from_elem((2 * n, 2 * p), 977.0);
+        for r in 0..n {
+            for c in 0..p {
+                big[[2 * r, 2 * c]] = rows[r][c];
+            }
+        }
+        big.slice_move(ndarray::s![..;2, ..;2])
+    }
+    fn vmk_strided(v: &[f64]) -> Self::RowVector {
+        let mut big = ndarray::Array1::from_elem(2 * v.len(), 977.0);
+        for (i, x) in v.iter().enumerate() {
+            big[2 * i] = *x;
+        }
+        big.slice_move(ndarray::s![..;2])
+    }
+}
+impl Bk for DMatrix<f64> {
+    const NAME: &'static str = "nalgebra";
+    fn mk(rows: &Rows) -> Self {
+        let (n, p) = shape_of(rows);
+        DMatrix::from_row_slice(n, p, &flat(rows))
+    }
+}
+pub const BACKENDS: [&str; 3] = ["dense", "ndarray", "nalgebra"];
+
+/// memory layout of an operand: built directly, or as the transpose of the transposed data (for
+/// ndarray this is an array with reversed strides, i.e. NOT in standard layout)
+#[derive(Clone, Copy, PartialEq, Debug)]
+pub enum Lay {
+    Std,
+    Tr,
+    Strided,
+}
+pub fn build<B: Bk>(a: &Rows, lay: Lay) -> B {
+    match lay {
+        Lay::Std => B::mk(a),
+        Lay::Tr => B::mk(&tr(a)).transpose(),
+        Lay::Strided => B::mk_strided(a),
+    }
+}
+pub fn vmk<B: Bk>(v: &[f64]) -> B::RowVector {
+    <B::RowVector as BaseVector<f64>>::from_array(v)
+}
+
+pub fn shape_of(a: &Rows) -> (usize, usize) {
+    (a.len(), if a.is_empty() { 0 } else { a[0].len() })
+}
+pub fn flat(a: &Rows) -> Vec<f64> {
+    a.iter().flatten().cloned().collect()
+}
+pub fn tr(a: &Rows) -> Rows {
+    let (n, p) = shape_of(a);
+    (0..p).map(|c| (0..n).map(|r| a[r][c]).collect()).collect()
+}
+fn maxabs(a: &[f64]) -> f64 {
+    a.iter().fold(0.0, |m, x| if x.abs() > m { x.abs() } else { m })
+}
+fn sumabs(a: &[f64]) -> f64 {
+    a.iter().map(|x| x.abs()).sum()
+}
+/// compensated sum
+fn csum(terms: &[f64]) -> f64 {
+    let (mut s, mut c) = (0.0f64, 0.0f64);
+    for &t in terms {
+        let y = s + t;
+        if s.abs() >= t.abs() {
+            c += (s - y) + t;
+        } else {
+            c += (t - y) + s;
+        }
+        s = y;
+    }
+    s + c
+}
+
+// ------------------------------------------------------------------------------------------
+// observed values
+// ------------------------------------------------------------------------------------------
+#[derive(Clone, Debug, PartialEq)]
+pub enum Val {
+    Panic,
+    /// the call returned Err(Failed) (decompositions / estimators)
+    Failed,
+    /// no answer within the watchdog's time
+    Timeout,
+    F(f64),
+    L(Vec<f64>),
+    M(usize, usize, Vec<f64>),
+    N(Vec<usize>),
+    B(bool),
+    S(usize, usize),
+}
+#[derive(Clone, Copy, PartialEq, Debug)]
+enum Ty {
+    F,
+    L,
+    M,
+    N,
+    B,
+    S,
+}
+/// how sharply an observation is compared
+#[derive(Clone, Copy, PartialEq, Debug)]
+enum Kind {
+    /// bit for bit on every backend (structure, element-wise arithmetic, order statistics, the shared
+    /// default methods)
+    Ex,
+    /// reductions and products: a backend may accumulate in another order than the dense matrix
+    /// (ndarray's unrolled sum / dot / gemm, nalgebra's gemm; ndarray iterates in logical order, the
+    /// dense matrix and nalgebra in column-major order): bit for bit on the dense matrix, absolute
+    /// tolerance 1e-11 * scale otherwise
+    Red,
+    /// through exp / powf: libm on the Rust side, a few-ulp software exp/ln in Coq: 1e-9 * scale
+    Trans,
+}
+
+pub fn vm<M: BaseMatrix<f64>>(m: &M) -> Val {
+    let (n, p) = m.shape();
+    let mut v = Vec::with_capacity(n * p);
+    for r in 0..n {
+        for c in 0..p {
+            v.push(m.get(r, c));
+        }
+    }
+    Val::M(n, p, v)
+}
+pub fn vr<V: BaseVector<f64>>(v: &V) -> Val {
+    Val::L((0..v.len()).map(|i| v.get(i)).collect())
+}
+pub fn vl(v: &[f64]) -> Val {
+    Val::L(v.to_vec())
+}
+fn g<F: FnOnce() -> Val>(f: F) -> Val {
+    match guard(f) {
+        Ok(v) => v,
+        Err(_) => Val::Panic,
+    }
+}
+fn same(x: f64, y: f64) -> bool {
+    x == y || (x.is_nan() && y.is_nan())
+}
+fn close(x: f64, y: f64, tol: f64) -> bool {
+    same(x, y) || (x - y).abs() <= tol
+}
+fn close_vec(a: &[f64], b: &[f64], tol: f64) -> bool {
+    a.len() == b.len() && a.iter().zip(b.iter()).all(|(x, y)| close(*x, *y, tol))
+}
+pub fn val_close(a: &Val, b: &Val, tol: f64) -> bool {
+    match (a, b) {
+        (Val::F(x), Val::F(y)) => close(*x, *y, tol),
+        (Val::L(x), Val::L(y)) => close_vec(x, y, tol),
+        (Val::M(n, p, x), Val::M(n2, p2, y)) => n == n2 && p == p2 && close_vec(x, y, tol),
+        _ => a == b,
+    }
+}
+fn val_short(v: &Val) -> String {
+    let s = format!("{:?}", v);
+    if s.len() > 300 {
+        format!("{}…", &s[..300])
+    } else {
+        s
     }
 }
 
-fn probe<M: Mk>(name: &str) {
-    let row: Rows = vec![vec![1.0, 2.0, 3.0]];
-    let col: Rows = vec![vec![4.0], vec![5.0], vec![6.0]];
-    let sq: Rows = vec![vec![1.0, 2.0], vec![3.0, 4.0]];
-    let sq3: Rows = vec![vec![1.0, 2.0, 3.0], vec![4.0, 5.0, 6.0], vec![7.0, 8.0, 10.0]];
-    println!("--- {}", name);
-    println!("dot row.col {:?}", guard(|| M::mk(&row).dot(&M::mk(&col))));
-    println!("dot col.col {:?}", guard(|| M::mk(&col).dot(&M::mk(&col))));
-    println!("dot sq.sq {:?}", guard(|| M::mk(&sq).dot(&M::mk(&sq))));
-    println!("dot row3.row2 {:?}", guard(|| M::mk(&row).dot(&M::mk(&vec![vec![1.0, 2.0]]))));
-    println!("max_diff 2x2 vs 3x3 {:?}", guard(|| M::mk(&sq).max_diff(&M::mk(&sq3))));
-    println!("max_diff row vs col {:?}", guard(|| M::mk(&row).max_diff(&M::mk(&col))));
-    println!("max_diff 3x3 vs 2x2 {:?}", guard(|| M::mk(&sq3).max_diff(&M::mk(&sq))));
-    println!("copy_row short {:?}", guard(|| { let mut b = vec![-7.0, -8.0]; M::mk(&sq3).copy_row_as_vec(0, &mut b); b }));
-    println!("copy_col short {:?}", guard(|| { let mut b = vec![-7.0, -8.0]; M::mk(&sq3).copy_col_as_vec(0, &mut b); b }));
-    println!("copy_row long {:?}", guard(|| { let mut b = vec![-7.0, -8.0, -9.0, -10.0]; M::mk(&sq3).copy_row_as_vec(0, &mut b); b }));
-    println!("set(3,0) on 3x3 {:?}", guard(|| { let mut m = M::mk(&sq3); m.set(3, 0, 9.0); m.get(0, 1) }));
-    println!("slice empty oob {:?}", guard(|| M::mk(&sq3).slice(5..5, 0..1).shape()));
-    println!("slice reversed {:?}", guard(|| M::mk(&sq3).slice(2..1, 0..1).shape()));
-    println!("slice oob {:?}", guard(|| M::mk(&sq3).slice(2..4, 0..1).shape()));
-    println!("div_scalar 3 {:?}", guard(|| M::mk(&sq3).div_scalar(3.0).get(2, 2).to_bits()));
-    println!("sub_scalar 0.1 {:?}", guard(|| M::mk(&sq3).sub_scalar(0.1).get(2, 2).to_bits()));
-    println!("take oob {:?}", guard(|| M::mk(&sq3).take(&[3], 0).shape()));
-    println!("reshape bad {:?}", guard(|| M::mk(&sq3).reshape(2, 4).shape()));
-    println!("add mism {:?}", guard(|| M::mk(&sq3).add(&M::mk(&sq)).shape()));
-    println!("mul mism row/col {:?}", guard(|| M::mk(&row).mul(&M::mk(&col)).shape()));
-    println!("copy_from mism {:?}", guard(|| { let mut m = M::mk(&row); m.copy_from(&M::mk(&col)); m.shape() }));
-    println!("matmul mism {:?}", guard(|| M::mk(&row).matmul(&M::mk(&row)).shape()));
-    println!("hstack mism {:?}", guard(|| M::mk(&row).h_stack(&M::mk(&col)).shape()));
-    println!("vstack mism {:?}", guard(|| M::mk(&row).v_stack(&M::mk(&col)).shape()));
-    println!("approx_eq mism {:?}", guard(|| M::mk(&row).approximate_eq(&M::mk(&col), 0.5)));
-    println!("scale short {:?}", guard(|| { let mut m = M::mk(&sq3); m.scale_mut(&[0.0], &[1.0], 0); m.get(0, 0) }));
-    println!("get_row oob {:?}", guard(|| M::mk(&sq3).get_row_as_vec(3)));
-    println!("cov 1 row {:?}", guard(|| M::mk(&row).cov().get(0, 0)));
-    println!("transposed reshape {:?}", guard(|| M::mk(&sq3).transpose().reshape(1, 9).get_row_as_vec(0)));
-    println!("transposed sum {:?}", guard(|| M::mk(&sq3).transpose().sum()));
+// ------------------------------------------------------------------------------------------
+// Gallina literals
+// ------------------------------------------------------------------------------------------
+fn lit_l(a: &Rows) -> String {
+    let (n, p) = shape_of(a);
+    format!("(L {} {} {})", coq_n(n), coq_n(p), coq_list_f64(&flat(a)))
+}
+fn lit_val(v: &Val) -> String {
+    match v {
+        Val::Panic | Val::Failed | Val::Timeout => "None".to_string(),
+        Val::F(x) => format!("(Some {})", coq_f64(*x)),
+        Val::L(x) => format!("(Some {})", coq_list_f64(x)),
+        Val::M(n, p, x) => format!("(Some ({}, {}, {}))", coq_n(*n), coq_n(*p), coq_list_f64(x)),
+        Val::N(x) => format!("(Some {})", coq_list_n(x)),
+        Val::B(b) => format!("(Some {})", coq_bool(*b)),
+        Val::S(n, p) => format!("(Some ({}, {}))", coq_n(*n), coq_n(*p)),
+    }
+}
+
+struct Obs {
+    op: String,
+    ty: Ty,
+    model: String,
+    kind: Kind,
+    scale: f64,
+    val: Val,
+}
+impl Obs {
+    /// tolerance when two backends are compared with each other
+    fn cross_tol(&self) -> f64 {
+        match self.kind {
+            Kind::Ex => 0.0,
+            Kind::Red => 1e-11 * self.scale,
+            Kind::Trans => 1e-9 * self.scale,
+        }
+    }
+    /// tolerance against the Coq model
+    fn model_tol(&self, dense: bool) -> f64 {
+        match self.kind {
+            Kind::Ex => 0.0,
+            Kind::Red => if dense { 0.0 } else { 1e-11 * self.scale },
+            Kind::Trans => 1e-9 * self.scale,
+        }
+    }
+    fn term(&self, dense: bool) -> String {
+        let t = self.model_tol(dense);
+        let cmp = match (self.ty, t > 0.0) {
+            (Ty::F, false) => "k_f_x".to_string(),
+            (Ty::F, true) => format!("k_f_a {}", coq_f64(t)),
+            (Ty::L, false) => "k_l_x".to_string(),
+            (Ty::L, true) => format!("k_l_a {}", coq_f64(t)),
+            (Ty::M, false) => "k_m_x".to_string(),
+            (Ty::M, true) => format!("k_m_a {}", coq_f64(t)),
+            (Ty::N, _) => "k_nl".to_string(),
+            (Ty::B, _) => "k_b".to_string(),
+            (Ty::S, _) => "k_shape".to_string(),
+        };
+        format!("{} ({}) {}", cmp, self.model, lit_val(&self.val))
+    }
+}
+struct Rec {
+    obs: Vec<Obs>,
+}
+impl Rec {
+    fn put<F: FnOnce() -> Val>(&mut self, op: &str, ty: Ty, model: String, kind: Kind, scale: f64, f: F) {
+        self.obs.push(Obs { op: op.to_string(), ty, model, kind, scale: scale.max(1e-300), val: g(f) });
+    }
+}
+
+// ------------------------------------------------------------------------------------------
+// cases (self-contained: this is the replay input)
+// ------------------------------------------------------------------------------------------
+#[derive(Clone, Debug, Default)]
+pub struct Case {
+    pub entry: String,
+    pub family: String,
+    pub a: Rows,
+    pub b: Rows,
+    /// seed of the operation parameters (positions, ranges, index lists, scalars) derived inside the oracle
+    pub sub: u64,
+    /// estimator / decomposition name for the algorithm entries
+    pub algo: String,
+    pub y: Vec<f64>,
+    pub q: Rows,
+}
+impl Case {
+    fn to_json(&self) -> Value {
+        json!({"entry": self.entry, "family": self.family, "a": self.a, "b": self.b, "sub": self.sub.to_string(),
+               "algo": self.algo, "y": self.y, "q": self.q})
+    }
+    fn from_json(v: &Value) -> Case {
+        Case {
+            entry: v["entry"].as_str().unwrap_or("").to_string(),
+            family: v["family"].as_str().unwrap_or("").to_string(),
+            a: rows_from_json(&v["a"]),
+            b: rows_from_json(&v["b"]),
+            sub: v["sub"].as_str().and_then(|s| s.parse().ok()).unwrap_or(0),
+            algo: v["algo"].as_str().unwrap_or("").to_string(),
+            y: f64s_from_json(&v["y"]),
+            q: rows_from_json(&v["q"]),
+        }
+    }
+    fn key(&self) -> u64 {
+        let mut d = flat(&self.a);
+        d.extend(flat(&self.b));
+        d.extend(self.y.iter());
+        d.extend(flat(&self.q));
+        d.push(self.a.len() as f64);
+        d.push(self.b.len() as f64);
+        hash_f64s(&d) ^ hash_of(&self.entry) ^ hash_of(&self.algo) ^ self.sub
+    }
+}
+
+// ------------------------------------------------------------------------------------------
+// observations: one matrix
+// ------------------------------------------------------------------------------------------
+fn unary_obs<B: Bk>(a: &Rows, lay: Lay, sub: u64) -> Vec<Obs> {
+    let mut q = Rng::new(sub);
+    let (n, p) = shape_of(a);
+    let fl = flat(a);
+    let (mx, s1) = (maxabs(&fl), sumabs(&fl));
+    let la = lit_l(a);
+    let m: B = build::<B>(a, lay);
+    let mut k = Rec { obs: vec![] };
+    use Kind::*;
+    let x = *q.pick(&[1.5, -2.0, 0.375, 4.0, -0.75, 3.0]);
+    let cx = coq_f64(x);
+
+    // construction / logical view
+    k.put("view", Ty::M, format!("y_id {}", la), Ex, 0.0, || vm(&m));
+    k.put("shape", Ty::S, format!("y_shape {}", la), Ex, 0.0, || { let (r, c) = m.shape(); Val::S(r, c) });
+    k.put("to_row_vector", Ty::L, format!("y_to_row_vector {}", la), Ex, 0.0, || vr(&m.clone().to_row_vector()));
+    k.put("from_row_vector", Ty::M, format!("y_from_row_vector {}", coq_list_f64(&fl)), Ex, 0.0, || vm(&B::from_row_vector(vmk::<B>(&fl))));
+    k.put("fill", Ty::M, format!("y_fill {} {} {}", coq_n(n), coq_n(p), cx), Ex, 0.0, || vm(&B::fill(n, p, x)));
+    k.put("zeros", Ty::M, format!("y_zeros {} {}", coq_n(n), coq_n(p)), Ex, 0.0, || vm(&B::zeros(n, p)));
+    k.put("ones", Ty::M, format!("y_ones {} {}", coq_n(n), coq_n(p)), Ex, 0.0, || vm(&B::ones(n, p)));
+    k.put("eye", Ty::M, format!("y_eye {}", coq_n(n)), Ex, 0.0, || vm(&B::eye(n)));
+
+    // get / set / element updates: in range, or out of range in the (row, col) sense AND in the
+    // linear-index sense (the dense matrix only tests the latter in `set`)
+    let (r, c) = if q.chance(0.75) { (q.below(n), q.below(p)) } else if q.bool() { (n + q.below(2), p - 1) } else { (q.below(n), p + q.below(2)) };
+    let (cr, cc) = (coq_n(r), coq_n(c));
+    k.put("get", Ty::F, format!("y_get {} {} {}", la, cr, cc), Ex, 0.0, || Val::F(m.get(r, c)));
+    k.put("set", Ty::M, format!("y_set {} {} {} {}", la, cr, cc, cx), Ex, 0.0, || { let mut w = m.clone(); w.set(r, c, x); vm(&w) });
+    for which in 0..4usize {
+        k.put(["add_element_mut", "sub_element_mut", "mul_element_mut", "div_element_mut"][which], Ty::M,
+            format!("y_elem {} {} {} {} {}", coq_n(which), la, cr, cc, cx), Ex, 0.0, || {
+                let mut w = m.clone();
+                match which { 0 => w.add_element_mut(r, c, x), 1 => w.sub_element_mut(r, c, x), 2 => w.mul_element_mut(r, c, x), _ => w.div_element_mut(r, c, x) };
+                vm(&w)
+            });
+    }
+    // rows and columns
+    let (rr, rc) = (q.below(n + 1), q.below(p + 1));
+    k.put("get_row", Ty::L, format!("y_get_row {} {}", la, coq_n(rr)), Ex, 0.0, || vr(&m.get_row(rr)));
+    k.put("get_row_as_vec", Ty::L, format!("y_get_row {} {}", la, coq_n(rr)), Ex, 0.0, || vl(&m.get_row_as_vec(rr)));
+    k.put("get_col_as_vec", Ty::L, format!("y_get_col {} {}", la, coq_n(rc)), Ex, 0.0, || vl(&m.get_col_as_vec(rc)));
+    let bufr: Vec<f64> = (0..p + q.below(3)).map(|i| -7.0 - i as f64).collect();
+    let bufc: Vec<f64> = (0..n + q.below(3)).map(|i| -7.0 - i as f64).collect();
+    k.put("copy_row_as_vec", Ty::L, format!("y_copy_row {} {} {}", la, coq_n(rr), coq_list_f64(&bufr)), Ex, 0.0, || { let mut w = bufr.clone(); m.copy_row_as_vec(rr, &mut w); vl(&w) });
+    k.put("copy_col_as_vec", Ty::L, format!("y_copy_col {} {} {}", la, coq_n(rc), coq_list_f64(&bufc)), Ex, 0.0, || { let mut w = bufc.clone(); m.copy_col_as_vec(rc, &mut w); vl(&w) });
+
+    // structure
+    k.put("transpose", Ty::M, format!("y_transpose {}", la), Ex, 0.0, || vm(&m.transpose()));
+    {
+        // non-empty ranges, sometimes past the end
+        let r0 = q.below(n);
+        let c0 = q.below(p);
+        let r1 = r0 + 1 + q.below(n - r0) + if q.chance(0.12) { n } else { 0 };
+        let c1 = c0 + 1 + q.below(p - c0) + if q.chance(0.12) { p } else { 0 };
+        k.put("slice", Ty::M, format!("y_slice {} {} {} {} {}", la, coq_n(r0), coq_n(r1), coq_n(c0), coq_n(c1)), Ex, 0.0, || vm(&m.slice(r0..r1, c0..c1)));
+        let divs: Vec<usize> = (1..=n * p).filter(|d| (n * p) % d == 0).collect();
+        for rep in 0..2 {
+            let rn = *q.pick(&divs);
+            let rp = if rep == 0 || q.chance(0.7) { n * p / rn } else { n * p / rn + 1 };
+            k.put("reshape", Ty::M, format!("y_reshape {} {} {}", la, coq_n(rn), coq_n(rp)), Ex, 0.0, || vm(&m.reshape(rn, rp)));
+        }
+        for axis in 0..2u8 {
+            let lim = if axis == 0 { n } else { p };
+            let bad = q.chance(0.15);
+            let idx: Vec<usize> = (0..q.below(6)).map(|_| q.below(if bad { lim + 1 } else { lim })).collect();
+            k.put(if axis == 0 { "take(rows)" } else { "take(columns)" }, Ty::M, format!("y_take {} {} {}", la, coq_list_n(&idx), coq_bool(axis == 0)), Ex, 0.0, || vm(&m.take(&idx, axis)));
+        }
+    }
+    // scalar arithmetic and maps, copying and in-place
+    for which in 0..4usize {
+        let model = format!("y_scalar {} {} {}", coq_n(which), la, cx);
+        k.put(["add_scalar", "sub_scalar", "mul_scalar", "div_scalar"][which], Ty::M, model.clone(), Ex, 0.0,
+            || vm(&match which { 0 => m.add_scalar(x), 1 => m.sub_scalar(x), 2 => m.mul_scalar(x), _ => m.div_scalar(x) }));
+        k.put(["add_scalar_mut", "sub_scalar_mut", "mul_scalar_mut", "div_scalar_mut"][which], Ty::M, model, Ex, 0.0, || {
+            let mut w = m.clone();
+            match which { 0 => { w.add_scalar_mut(x); } 1 => { w.sub_scalar_mut(x); } 2 => { w.mul_scalar_mut(x); } _ => { w.div_scalar_mut(x); } };
+            vm(&w)
+        });
+    }
+    k.put("negative", Ty::M, format!("y_negative {}", la), Ex, 0.0, || vm(&m.negative()));
+    k.put("negative_mut", Ty::M, format!("y_negative {}", la), Ex, 0.0, || { let mut w = m.clone(); w.negative_mut(); vm(&w) });
+    k.put("abs", Ty::M, format!("y_abs {}", la), Ex, 0.0, || vm(&m.abs()));
+    k.put("abs_mut", Ty::M, format!("y_abs {}", la), Ex, 0.0, || { let mut w = m.clone(); w.abs_mut(); vm(&w) });
+    let th = *q.pick(&[0.0, -1.0, 0.5, 2.0]);
+    k.put("binarize", Ty::M, format!("y_binarize {} {}", la, coq_f64(th)), Ex, 0.0, || vm(&m.binarize(th)));
+    k.put("binarize_mut", Ty::M, format!("y_binarize {} {}", la, coq_f64(th)), Ex, 0.0, || { let mut w = m.clone(); w.binarize_mut(th); vm(&w) });
+    if mx <= 64.0 {
+        // integer powers of data of any sign; real powers of |data|
+        let pi = *q.pick(&[0.0, 1.0, 2.0, 3.0]);
+        let sc = mx.max(1.0).powf(pi);
+        k.put("pow", Ty::M, format!("y_powg {} {}", la, coq_f64(pi)), Trans, sc, || vm(&m.clone().pow(pi)));
+        k.put("pow_mut", Ty::M, format!("y_powg {} {}", la, coq_f64(pi)), Trans, sc, || { let mut w = m.clone(); w.pow_mut(pi); vm(&w) });
+        let pr = *q.pick(&[0.5, 1.5, 2.0]);
+        let aa: Rows = a.iter().map(|r| r.iter().map(|v| v.abs()).collect()).collect();
+        let ma: B = build::<B>(&aa, lay);
+        k.put("pow(abs)", Ty::M, format!("y_powg {} {}", lit_l(&aa), coq_f64(pr)), Trans, mx.max(1.0).powf(pr), || vm(&ma.clone().pow(pr)));
+    }
+    // reductions
+    k.put("sum", Ty::F, format!("y_sum {}", la), Red, s1, || Val::F(m.sum()));
+    k.put("max", Ty::F, format!("y_max {}", la), Ex, 0.0, || Val::F(m.max()));
+    k.put("min", Ty::F, format!("y_min {}", la), Ex, 0.0, || Val::F(m.min()));
+    k.put("norm2", Ty::F, format!("y_norm2 {}", la), Red, s1, || Val::F(m.norm2()));
+    k.put("norm(inf)", Ty::F, format!("y_norm_pinf {}", la), Ex, 0.0, || Val::F(m.norm(f64::INFINITY)));
+    k.put("norm(-inf)", Ty::F, format!("y_norm_ninf {}", la), Ex, 0.0, || Val::F(m.norm(f64::NEG_INFINITY)));
+    if mx <= 64.0 {
+        let pn = *q.pick(&[1.0, 2.0, 3.0, 0.5]);
+        let sc = (mx.max(1.0)) * ((n * p) as f64).powf((1.0f64 / pn).max(1.0));
+        k.put("norm(p)", Ty::F, format!("y_norm_p {} {}", la, coq_f64(pn)), Trans, sc, || Val::F(m.norm(pn)));
+    }
+    k.put("column_mean", Ty::L, format!("y_column_mean {}", la), Red, mx, || vl(&m.column_mean()));
+    k.put("argmax", Ty::N, format!("y_argmax {}", la), Ex, 0.0, || Val::N(m.argmax()));
+    k.put("unique", Ty::L, format!("y_unique {}", la), Ex, 0.0, || vl(&m.unique()));
+    if mx <= 700.0 {
+        k.put("softmax_mut", Ty::M, format!("y_softmax {}", la), Trans, 1.0, || { let mut w = m.clone(); w.softmax_mut(); vm(&w) });
+    }
+    // statistics (default methods written against get / set / shape)
+    for axis in 0..2u8 {
+        let ax = coq_bool(axis == 0);
+        let nm = |s: &str| format!("{}(axis {})", s, axis);
+        k.put(&nm("mean"), Ty::L, format!("y_mean {} {}", la, ax), Ex, 0.0, || vl(&m.mean(axis)));
+        k.put(&nm("var"), Ty::L, format!("y_var {} {}", la, ax), Ex, 0.0, || vl(&m.var(axis)));
+        k.put(&nm("std"), Ty::L, format!("y_std {} {}", la, ax), Ex, 0.0, || vl(&m.std(axis)));
+        let len = if axis == 0 { p } else { n };
+        let short = q.chance(0.12);
+        let mu: Vec<f64> = (0..(if short { len - 1 } else { len + q.below(2) })).map(|_| q.dyadic(2, 2)).collect();
+        let sd: Vec<f64> = (0..len + q.below(2)).map(|_| q.int(1, 12) as f64 / 4.0).collect();
+        k.put(&nm("scale_mut"), Ty::M, format!("y_scale {} {} {} {}", la, coq_list_f64(&mu), coq_list_f64(&sd), ax), Ex, 0.0, || { let mut w = m.clone(); w.scale_mut(&mu, &sd, axis); vm(&w) });
+    }
+    k.put("cov", Ty::M, format!("y_cov {}", la), Red, 4.0 * mx * mx * (n as f64), || vm(&m.cov()));
+    k.obs
+}
+
+// ------------------------------------------------------------------------------------------
+// observations: two matrices (all pairings of compatible and incompatible shapes)
+// ------------------------------------------------------------------------------------------
+fn binary_obs<B: Bk>(a: &Rows, b: &Rows, la_: Lay, lb_: Lay, sub: u64) -> Vec<Obs> {
+    let mut q = Rng::new(sub);
+    let (fa, fb) = (flat(a), flat(b));
+    let (mxa, mxb) = (maxabs(&fa), maxabs(&fb));
+    let (sa, sb) = (shape_of(a), shape_of(b));
+    let (la, lb) = (lit_l(a), lit_l(b));
+    let ma: B = build::<B>(a, la_);
+    let mb: B = build::<B>(b, lb_);
+    let mut k = Rec { obs: vec![] };
+    use Kind::*;
+    for which in 0..4usize {
+        let model = format!("y_zip {} {} {}", coq_n(which), la, lb);
+        k.put(["add", "sub", "mul", "div"][which], Ty::M, model.clone(), Ex, 0.0, || vm(&match which { 0 => ma.add(&mb), 1 => ma.sub(&mb), 2 => ma.mul(&mb), _ => ma.div(&mb) }));
+        k.put(["add_mut", "sub_mut", "mul_mut", "div_mut"][which], Ty::M, model, Ex, 0.0, || {
+            let mut w = ma.clone();
+            match which { 0 => { w.add_mut(&mb); } 1 => { w.sub_mut(&mb); } 2 => { w.mul_mut(&mb); } _ => { w.div_mut(&mb); } };
+            vm(&w)
+        });
+    }
+    let inner = (sa.0.max(sa.1).max(sb.0).max(sb.1)) as f64;
+    let psc = mxa * mxb * inner;
+    k.put("matmul", Ty::M, format!("y_matmul {} {}", la, lb), Red, psc, || vm(&ma.matmul(&mb)));
+    for (ta, tb) in [(false, false), (true, false), (false, true), (true, true)] {
+        k.put(&format!("ab({},{})", ta, tb), Ty::M, format!("y_ab {} {} {} {}", la, coq_bool(ta), lb, coq_bool(tb)), Red, psc, || vm(&ma.ab(ta, &mb, tb)));
+    }
+    k.put("dot", Ty::F, format!("y_dot {} {}", la, lb), Red, psc, || Val::F(ma.dot(&mb)));
+    k.put("h_stack", Ty::M, format!("y_h_stack {} {}", la, lb), Ex, 0.0, || vm(&ma.h_stack(&mb)));
+    k.put("v_stack", Ty::M, format!("y_v_stack {} {}", la, lb), Ex, 0.0, || vm(&ma.v_stack(&mb)));
+    k.put("copy_from", Ty::M, format!("y_copy_from {} {}", la, lb), Ex, 0.0, || { let mut w = ma.clone(); w.copy_from(&mb); vm(&w) });
+    let err = *q.pick(&[0.0, 0.125, 0.5, 1.0]);
+    k.put("approximate_eq", Ty::B, format!("y_approximate_eq {} {} {}", la, lb, coq_f64(err)), Ex, 0.0, || Val::B(ma.approximate_eq(&mb, err)));
+    k.put("max_diff", Ty::F, format!("y_max_diff {} {}", la, lb), Ex, 0.0, || Val::F(ma.max_diff(&mb)));
+    k.obs
+}
+// ------------------------------------------------------------------------------------------
+// observations: the backend's vector type (BaseVector)
+// ------------------------------------------------------------------------------------------
+fn vector_obs<B: Bk>(a: &[f64], b: &[f64], sub: u64, strided: bool) -> Vec<Obs> {
+    let mut q = Rng::new(sub);
+    let (la, lb) = (coq_list_f64(a), coq_list_f64(b));
+    let (n1, _n2) = (a.len(), b.len());
+    let (mx, s1) = (maxabs(a), sumabs(a));
+    let va = if strided { B::vmk_strided(a) } else { vmk::<B>(a) };
+    let vb = if strided { B::vmk_strided(b) } else { vmk::<B>(b) };
+    let mut k = Rec { obs: vec![] };
+    use Kind::*;
+    let x = *q.pick(&[1.5, -2.0, 0.375, 4.0]);
+    let cx = coq_f64(x);
+    k.put("vec:from_array/get", Ty::L, format!("y_vid {}", la), Ex, 0.0, || vr(&va));
+    k.put("vec:to_vec", Ty::L, format!("y_vid {}", la), Ex, 0.0, || vl(&va.to_vec()));
+    let i = q.below(n1 + 2);
+    k.put("vec:get", Ty::F, format!("y_vget {} {}", la, coq_n(i)), Ex, 0.0, || Val::F(va.get(i)));
+    k.put("vec:dot", Ty::F, format!("y_vdot {} {}", la, lb), Red, mx * maxabs(b) * (n1 as f64), || Val::F(va.dot(&vb)));
+    for which in 0..4usize {
+        let model = format!("y_vzip {} {} {}", coq_n(which), la, lb);
+        k.put(["vec:add", "vec:sub", "vec:mul", "vec:div"][which], Ty::L, model.clone(), Ex, 0.0, || vr(&match which { 0 => va.add(&vb), 1 => va.sub(&vb), 2 => va.mul(&vb), _ => va.div(&vb) }));
+        k.put(["vec:add_mut", "vec:sub_mut", "vec:mul_mut", "vec:div_mut"][which], Ty::L, model, Ex, 0.0, || {
+            let mut w = va.clone();
+            match which { 0 => { w.add_mut(&vb); } 1 => { w.sub_mut(&vb); } 2 => { w.mul_mut(&vb); } _ => { w.div_mut(&vb); } };
+            vr(&w)
+        });
+        let model = format!("y_vscalar {} {} {}", coq_n(which), la, cx);
+        k.put(["vec:add_scalar", "vec:sub_scalar", "vec:mul_scalar", "vec:div_scalar"][which], Ty::L, model.clone(), Ex, 0.0, || vr(&match which { 0 => va.add_scalar(x), 1 => va.sub_scalar(x), 2 => va.mul_scalar(x), _ => va.div_scalar(x) }));
+        k.put(["vec:add_scalar_mut", "vec:sub_scalar_mut", "vec:mul_scalar_mut", "vec:div_scalar_mut"][which], Ty::L, model, Ex, 0.0, || {
+            let mut w = va.clone();
+            match which { 0 => { w.add_scalar_mut(x); } 1 => { w.sub_scalar_mut(x); } 2 => { w.mul_scalar_mut(x); } _ => { w.div_scalar_mut(x); } };
+            vr(&w)
+        });
+    }
+    for which in 0..5usize {
+        k.put(["vec:add_element_mut", "vec:sub_element_mut", "vec:mul_element_mut", "vec:div_element_mut", "vec:set"][which], Ty::L,
+            format!("y_velem {} {} {} {}", coq_n(which), la, coq_n(i), cx), Ex, 0.0, || {
+                let mut w = va.clone();
+                match which { 0 => w.add_element_mut(i, x), 1 => w.sub_element_mut(i, x), 2 => w.mul_element_mut(i, x), 3 => w.div_element_mut(i, x), _ => w.set(i, x) };
+                vr(&w)
+            });
+    }
+    k.put("vec:norm2", Ty::F, format!("y_vnorm2 {}", la), Red, s1, || Val::F(va.norm2()));
+    k.put("vec:norm(inf)", Ty::F, format!("y_vnorm_pinf {}", la), Ex, 0.0, || Val::F(va.norm(f64::INFINITY)));
+    k.put("vec:norm(-inf)", Ty::F, format!("y_vnorm_ninf {}", la), Ex, 0.0, || Val::F(va.norm(f64::NEG_INFINITY)));
+    if mx <= 64.0 {
+        let pn = *q.pick(&[1.0, 2.0, 3.0, 0.5]);
+        let sc = (mx.max(1.0)) * (n1 as f64).powf((1.0f64 / pn).max(1.0));
+        k.put("vec:norm(p)", Ty::F, format!("y_vnorm_p {} {}", la, coq_f64(pn)), Trans, sc, || Val::F(va.norm(pn)));
+    }
+    k.put("vec:sum", Ty::F, format!("y_vsum {}", la), Red, s1, || Val::F(va.sum()));
+    k.put("vec:mean", Ty::F, format!("y_vmean {}", la), Red, mx, || Val::F(va.mean()));
+    k.put("vec:var", Ty::F, format!("y_vvar {}", la), Ex, 0.0, || Val::F(va.var()));
+    k.put("vec:std", Ty::F, format!("y_vstd {}", la), Ex, 0.0, || Val::F(va.std()));
+    let err = *q.pick(&[0.0, 0.125, 1.0]);
+    k.put("vec:approximate_eq", Ty::B, format!("y_vapprox_eq {} {} {}", la, lb, coq_f64(err)), Ex, 0.0, || Val::B(va.approximate_eq(&vb, err)));
+    let bad = q.chance(0.2);
+    let idx: Vec<usize> = (0..q.below(6)).map(|_| q.below(if bad { n1 + 1 } else { n1 })).collect();
+    k.put("vec:take", Ty::L, format!("y_vtake {} {}", la, coq_list_n(&idx)), Ex, 0.0, || vr(&va.take(&idx)));
+    k.put("vec:copy_from", Ty::L, format!("y_vcopy_from {} {}", la, lb), Ex, 0.0, || { let mut w = va.clone(); w.copy_from(&vb); vr(&w) });
+    k.put("vec:unique", Ty::L, format!("y_vunique {}", la), Ex, 0.0, || vl(&va.unique()));
+    k.put("vec:fill", Ty::L, format!("y_vfill {} {}", coq_n(n1), cx), Ex, 0.0, || vr(&<B::RowVector as BaseVector<f64>>::fill(n1, x)));
+    k.put("vec:zeros", Ty::L, format!("y_vfill {} {}", coq_n(n1), coq_f64(0.0)), Ex, 0.0, || vr(&<B::RowVector as BaseVector<f64>>::zeros(n1)));
+    k.put("vec:ones", Ty::L, format!("y_vfill {} {}", coq_n(n1), coq_f64(1.0)), Ex, 0.0, || vr(&<B::RowVector as BaseVector<f64>>::ones(n1)));
+    k.put("vec:len", Ty::N, format!("y_vlen {}", la), Ex, 0.0, || Val::N(vec![va.len()]));
+    k.obs
+}
+
+// ------------------------------------------------------------------------------------------
+// oracles written from the property text on the logical view (no model, no reference backend)
+// ------------------------------------------------------------------------------------------
+fn defs<B: Bk>(a: &Rows, lay: Lay, f: &mut Vec<(String, String)>) {
+    let (n, p) = shape_of(a);
+    let fl = flat(a);
+    let at = tr(a);
+    let m: B = build::<B>(a, lay);
+    let nm = |s: &str| format!("{} on {} ({:?} layout)", s, B::NAME, lay);
+    let mut chk = |ok: bool, oracle: &str, what: String| {
+        if !ok {
+            f.push((oracle.to_string(), what));
+        }
+    };
+    // flattening and reshaping follow the logical row-major order, also after a transpose
+    let got = g(|| vr(&m.clone().to_row_vector()));
+    chk(got == vl(&fl), "row_major_flatten", format!("{}: {} expected {:?}", nm("to_row_vector"), val_short(&got), fl));
+    let got = g(|| vr(&m.transpose().to_row_vector()));
+    chk(got == vl(&flat(&at)), "row_major_flatten", format!("{}: {} expected {:?}", nm("transpose().to_row_vector"), val_short(&got), flat(&at)));
+    let sz = n * p;
+    for k in 1..=sz {
+        if sz % k == 0 {
+            let l = sz / k;
+            let got = g(|| vm(&m.reshape(k, l)));
+            chk(got == Val::M(k, l, fl.clone()), "row_major_reshape", format!("{}: {} expected row-major {:?}", nm(&format!("reshape({},{})", k, l)), val_short(&got), fl));
+            let got = g(|| vm(&m.transpose().reshape(k, l)));
+            chk(got == Val::M(k, l, flat(&at)), "row_major_reshape", format!("{}: {} expected row-major {:?}", nm(&format!("transpose().reshape({},{})", k, l)), val_short(&got), flat(&at)));
+        }
+    }
+    let got = g(|| vm(&m.transpose()));
+    chk(got == Val::M(p, n, flat(&at)), "transpose", format!("{}: {}", nm("transpose"), val_short(&got)));
+    // reductions do not depend on the sign or orientation of the data
+    let dmax = fl.iter().cloned().fold(f64::NEG_INFINITY, f64::max);
+    let dmin = fl.iter().cloned().fold(f64::INFINITY, f64::min);
+    let amax = fl.iter().map(|x| x.abs()).fold(f64::NEG_INFINITY, f64::max);
+    let amin = fl.iter().map(|x| x.abs()).fold(f64::INFINITY, f64::min);
+    let s1 = sumabs(&fl);
+    let tol = 1e-11 * s1.max(1e-300);
+    let exp: Vec<(&str, f64, f64, Box<dyn Fn(&B) -> f64>)> = vec![
+        ("max", dmax, 0.0, Box::new(|w: &B| w.max())),
+        ("min", dmin, 0.0, Box::new(|w: &B| w.min())),
+        ("norm(inf)", amax, 0.0, Box::new(|w: &B| w.norm(f64::INFINITY))),
+        ("norm(-inf)", amin, 0.0, Box::new(|w: &B| w.norm(f64::NEG_INFINITY))),
+        ("sum", csum(&fl), tol, Box::new(|w: &B| w.sum())),
+        ("norm2", csum(&fl.iter().map(|x| x * x).collect::<Vec<f64>>()).sqrt(), tol, Box::new(|w: &B| w.norm2())),
+        ("norm(1)", s1, tol, Box::new(|w: &B| w.norm(1.0))),
+    ];
+    for (name, e, t, fun) in exp.iter() {
+        let got = g(|| Val::F(fun(&m)));
+        chk(val_close(&got, &Val::F(*e), *t), "reduction_definition", format!("{}: {} expected {:e}", nm(name), val_short(&got), e));
+        let got = g(|| Val::F(fun(&m.transpose())));
+        chk(val_close(&got, &Val::F(*e), *t), "reduction_orientation", format!("{}: {} expected {:e}", nm(&format!("transpose().{}", name)), val_short(&got), e));
+    }
+    let got = g(|| Val::F(m.negative().max()));
+    chk(got == Val::F(-dmin), "reduction_sign", format!("{}: {} expected {:e}", nm("negative().max"), val_short(&got), -dmin));
+    let got = g(|| Val::F(m.negative().min()));
+    chk(got == Val::F(-dmax), "reduction_sign", format!("{}: {} expected {:e}", nm("negative().min"), val_short(&got), -dmax));
+    let got = g(|| Val::F(m.negative().norm(f64::INFINITY)));
+    chk(got == Val::F(amax), "reduction_sign", format!("{}: {} expected {:e}", nm("negative().norm(inf)"), val_short(&got), amax));
+    let got = g(|| Val::F(m.negative().norm2()));
+    let e = g(|| Val::F(m.norm2()));
+    chk(got == e, "reduction_sign", format!("{}: {} but norm2 = {}", nm("negative().norm2"), val_short(&got), val_short(&e)));
+}
+
+/// dot of two vectors of equal length in all four orientations: Some(failing orientation, value)
+fn dot_orient<B: Bk>(u: &[f64], v: &[f64]) -> Vec<(String, Val)> {
+    let row = |x: &[f64]| -> Rows { vec![x.to_vec()] };
+    let col = |x: &[f64]| -> Rows { x.iter().map(|t| vec![*t]).collect() };
+    let mut o = vec![];
+    for (na, ra) in [("row", row(u)), ("column", col(u))] {
+        for (nb, rb) in [("row", row(v)), ("column", col(v))] {
+            let (ma, mb): (B, B) = (B::mk(&ra), B::mk(&rb));
+            o.push((format!("{}.{}", na, nb), g(|| Val::F(ma.dot(&mb)))));
+        }
+    }
+    o
+}
+
+// ------------------------------------------------------------------------------------------
+// known findings (ids as in KNOWN_FINDINGS.txt): none for C20 at present — the two discrepancies this
+// harness found (nalgebra's dot on mixed orientations / non-vectors, max_diff on operands of different
+// shape, ndarray's unique() reading the whole allocation of a non-contiguous array) were repaired in /repo
+// (1f6c7ea, 99b23b2, c1b0a65) and are plain failures if they come back.
+// ------------------------------------------------------------------------------------------
+fn listed_findings() -> Vec<String> {
+    let mut ids = vec![];
+    for p in [concat!(env!("CARGO_MANIFEST_DIR"), "/../KNOWN_FINDINGS.txt"), "/verif/KNOWN_FINDINGS.txt"] {
+        if let Ok(s) = std::fs::read_to_string(p) {
+            for l in s.lines() {
+                if l.starts_with("finding:") && l.contains("property=C20") {
+                    if let Some(i) = l.find("id=") {
+                        ids.push(l[i + 3..].split_whitespace().next().unwrap_or("").to_string());
+                    }
+                }
+            }
+            break;
+        }
+    }
+    ids
+}
+#[derive(Default)]
+pub struct Verdict {
+    pub fails: Vec<(String, String)>,
+    pub known: Vec<(String, String)>,
+    pub notes: Vec<String>,
+}
+impl Verdict {
+    fn fail(&mut self, oracle: &str, what: String) {
+        if self.fails.len() < 6 {
+            self.fails.push((oracle.to_string(), what));
+        }
+    }
+}
+
+fn is_vec(s: (usize, usize)) -> bool {
+    s.0 == 1 || s.1 == 1
+}
+
+/// compare the observation lists of all backends / layouts with each other
+fn cross(lists: &[(String, Vec<Obs>)], v: &mut Verdict, sa: (usize, usize), sb: Option<(usize, usize)>) {
+    let (ref0, l0) = &lists[0];
+    for (name, l) in lists.iter().skip(1) {
+        if l.len() != l0.len() {
+            v.fail("harness", format!("observation lists of {} and {} differ in length", ref0, name));
+            continue;
+        }
+    }
+    for i in 0..l0.len() {
+        let o0 = &l0[i];
+        let tol = o0.cross_tol();
+        let mut bad: Vec<usize> = vec![];
+        for (j, (_, l)) in lists.iter().enumerate().skip(1) {
+            if l.len() == l0.len() && !val_close(&o0.val, &l[i].val, tol) {
+                bad.push(j);
+            }
+        }
+        if bad.is_empty() {
+            continue;
+        }
+        let all: Vec<String> = lists.iter().map(|(n, l)| format!("{}: {}", n, if l.len() == l0.len() { val_short(&l[i].val) } else { "?".into() })).collect();
+        let what = format!("{} on shape {:?}{}: backends disagree: {}", o0.op, sa, sb.map(|s| format!(" with {:?}", s)).unwrap_or_default(), all.join(" | "));
+        let mism = sb.map(|s| s != sa).unwrap_or(false);
+        v.fail(if mism { "shape_mismatch_handling" } else { "backends_agree" }, what);
+    }
+}
+
+fn lays3() -> [(Lay, Lay); 3] {
+    [(Lay::Std, Lay::Std), (Lay::Tr, Lay::Tr), (Lay::Std, Lay::Tr)]
+}
+
+fn run_methods(c: &Case) -> Verdict {
+    let mut v = Verdict::default();
+    let sa = shape_of(&c.a);
+    match c.entry.as_str() {
+        "unary" => {
+            let mut lists = vec![];
+            for lay in [Lay::Std, Lay::Tr, Lay::Strided] {
+                if lay == Lay::Strided {
+                    lists.push((format!("ndarray/{:?}", lay), unary_obs::<Array2<f64>>(&c.a, lay, c.sub)));
+                    continue;
+                }
+                lists.push((format!("dense/{:?}", lay), unary_obs::<DenseMatrix<f64>>(&c.a, lay, c.sub)));
+                lists.push((format!("ndarray/{:?}", lay), unary_obs::<Array2<f64>>(&c.a, lay, c.sub)));
+                lists.push((format!("nalgebra/{:?}", lay), unary_obs::<DMatrix<f64>>(&c.a, lay, c.sub)));
+            }
+            cross(&lists, &mut v, sa, None);
+            let mut f = vec![];
+            for lay in [Lay::Std, Lay::Tr] {
+                defs::<DenseMatrix<f64>>(&c.a, lay, &mut f);
+                defs::<Array2<f64>>(&c.a, lay, &mut f);
+                defs::<DMatrix<f64>>(&c.a, lay, &mut f);
+            }
+            for (o, w) in f {
+                v.fail(&o, w);
+            }
+        }
+        "binary" => {
+            let sb = shape_of(&c.b);
+            let mut lists = vec![];
+            for (l1, l2) in lays3() {
+                lists.push((format!("dense/{:?}{:?}", l1, l2), binary_obs::<DenseMatrix<f64>>(&c.a, &c.b, l1, l2, c.sub)));
+                lists.push((format!("ndarray/{:?}{:?}", l1, l2), binary_obs::<Array2<f64>>(&c.a, &c.b, l1, l2, c.sub)));
+                lists.push((format!("nalgebra/{:?}{:?}", l1, l2), binary_obs::<DMatrix<f64>>(&c.a, &c.b, l1, l2, c.sub)));
+            }
+            cross(&lists, &mut v, sa, Some(sb));
+            // the shape contract named by the property: incompatible operands are rejected by ALL backends
+            // (and equality tests answer false) — read off the dense/standard observations, the cross
+            // comparison above extends it to the others
+            if sa != sb {
+                for o in lists[0].1.iter() {
+                    let must_reject = match o.op.as_str() {
+                        "add" | "sub" | "mul" | "div" | "add_mut" | "sub_mut" | "mul_mut" | "div_mut" | "copy_from" | "max_diff" => true,
+                        "dot" => !(is_vec(sa) && is_vec(sb) && sa.0 * sa.1 == sb.0 * sb.1),
+                        "matmul" | "ab(false,false)" => sa.1 != sb.0,
+                        "h_stack" => sa.0 != sb.0,
+                        "v_stack" => sa.1 != sb.1,
+                        _ => false,
+                    };
+                    if must_reject && o.val != Val::Panic {
+                        v.fail("shape_mismatch_handling", format!("{} of {:?} with {:?} was accepted: {}", o.op, sa, sb, val_short(&o.val)));
+                    }
+                    if o.op == "approximate_eq" && o.val != Val::B(false) {
+                        v.fail("shape_mismatch_handling", format!("approximate_eq of {:?} with {:?}: {}", sa, sb, val_short(&o.val)));
+                    }
+                }
+            }
+            // dot of two vectors of equal length does not depend on their orientation
+            if is_vec(sa) && is_vec(sb) && sa.0 * sa.1 == sb.0 * sb.1 {
+                let (u, w) = (flat(&c.a), flat(&c.b));
+                let e = csum(&u.iter().zip(w.iter()).map(|(x, y)| x * y).collect::<Vec<f64>>());
+                let tol = 1e-11 * (maxabs(&u) * maxabs(&w) * u.len() as f64).max(1e-300);
+                let mut one = |name: &str, r: Vec<(String, Val)>, v: &mut Verdict| {
+                    for (o, val) in r {
+                        if !val_close(&val, &Val::F(e), tol) {
+                            v.fail("dot_orientation", format!("dot({}) of two vectors of length {} on {}: {} expected {:e}", o, u.len(), name, val_short(&val), e));
+                        }
+                    }
+                };
+                one("dense", dot_orient::<DenseMatrix<f64>>(&u, &w), &mut v);
+                one("ndarray", dot_orient::<Array2<f64>>(&u, &w), &mut v);
+                one("nalgebra", dot_orient::<DMatrix<f64>>(&u, &w), &mut v);
+            }
+        }
+        "vector" => {
+            let (a, b) = (flat(&c.a), flat(&c.b));
+            let lists = vec![
+                ("dense".to_string(), vector_obs::<DenseMatrix<f64>>(&a, &b, c.sub, false)),
+                ("ndarray".to_string(), vector_obs::<Array2<f64>>(&a, &b, c.sub, false)),
+                ("nalgebra".to_string(), vector_obs::<DMatrix<f64>>(&a, &b, c.sub, false)),
+                ("ndarray/Strided".to_string(), vector_obs::<Array2<f64>>(&a, &b, c.sub, true)),
+            ];
+            cross(&lists, &mut v, (1, a.len()), Some((1, b.len())));
+        }
+        _ => v.fail("replay", format!("unknown entry {}", c.entry)),
+    }
+    v
+}
+
+pub fn run_case(c: &Case) -> Verdict {
+    let r = guard(|| match c.entry.as_str() {
+        "decomposition" | "estimator" => algos::run_algo(c),
+        _ => run_methods(c),
+    });
+    match r {
+        Ok(v) => v,
+        Err(e) => {
+            let mut v = Verdict::default();
+            v.fail("harness", format!("oracle {} itself panicked: {}", c.entry, e));
+            v
+        }
+    }
+}
+
+struct Ctx {
+    out: Out,
+    listed: Vec<String>,
+}
+fn record(k: &mut Ctx, c: &Case) {
+    let v = run_case(c);
+    let (n, p) = shape_of(&c.a);
+    let fl = flat(&c.a);
+    let neg = fl.iter().any(|x| *x < 0.0);
+    k.out.eval(c.key(), n != p || neg || !c.algo.is_empty());
+    k.out.count(&format!("search:{}{}", c.entry, if c.algo.is_empty() { String::new() } else { format!(":{}", c.algo) }));
+    if !c.family.is_empty() {
+        k.out.count(&format!("search:family:{}", c.family));
+    }
+    if c.algo.is_empty() {
+        let kind = if n == 1 && p == 1 { "1x1" } else if n == 1 { "1xN" } else if p == 1 { "Nx1" } else if n == p { "square" } else if n > p { "tall" } else { "wide" };
+        k.out.count(&format!("search:shape:{}", kind));
+        let sign = if fl.iter().all(|x| *x < 0.0) { "all-negative" } else if fl.iter().all(|x| *x > 0.0) { "all-positive" } else { "mixed-or-zero" };
+        k.out.count(&format!("search:sign:{}", sign));
+    }
+    for note in &v.notes {
+        k.out.count(note);
+    }
+    for (id, what) in &v.known {
+        if k.listed.iter().any(|l| l == id) {
+            k.out.known(id, what);
+            k.out.count(&format!("known:{}", id));
+        } else {
+            k.out.fail(&format!("unlisted-known:{}", id), what, c.to_json());
+        }
+    }
+    for (oracle, what) in &v.fails {
+        k.out.fail(oracle, what, c.to_json());
+    }
+}
+
+fn replay(path: &str) -> i32 {
+    let v = read_replay(path);
+    let inp = if v.get("input").is_some() { v["input"].clone() } else { v.clone() };
+    let c = Case::from_json(&inp);
+    let r = run_case(&c);
+    for (o, w) in &r.fails {
+        println!("  {}: {}", o, w);
+    }
+    for (o, w) in &r.known {
+        println!("  known finding {}: {}", o, w);
+    }
+    if !r.fails.is_empty() {
+        println!("REPLAY: property=C20 still fails: {}", path);
+        1
+    } else {
+        println!("REPLAY: property=C20 passes: {}", path);
+        0
+    }
+}
+
+// ------------------------------------------------------------------------------------------
+// generators
+// ------------------------------------------------------------------------------------------
+const FAMILIES: [&str; 8] = ["dyadic-mixed", "positive", "all-negative", "all-equal", "large", "integers", "continuous", "negative-integers"];
+
+pub fn gen_rows(rng: &mut Rng, n: usize, p: usize, fam: &str) -> Rows {
+    let konst = rng.dyadic(16, 2);
+    let big = *rng.pick(&[1e6, 1e9, 1e12]);
+    (0..n)
+        .map(|_| {
+            (0..p)
+                .map(|_| match fam {
+                    "dyadic-mixed" => rng.dyadic(8, 3),
+                    "positive" => rng.uniform(0.1, 10.0),
+                    "all-negative" => -rng.uniform(0.1, 10.0),
+                    "all-equal" => konst,
+                    "large" => rng.uniform(-1.0, 1.0) * big,
+                    "integers" => { let x = rng.int(-3, 3) as f64; if x == 0.0 && rng.chance(0.3) { -0.0 } else { x } }
+                    "negative-integers" => -(rng.int(1, 4) as f64),
+                    _ => rng.normal() * 3.0,
+                })
+                .collect()
+        })
+        .collect()
+}
+fn gen_shape(rng: &mut Rng, max: usize) -> (usize, usize) {
+    match rng.below(8) {
+        0 => (1, rng.usize_in(1, max)),
+        1 => (rng.usize_in(1, max), 1),
+        2 => (1, 1),
+        3 => { let n = rng.usize_in(1, max); (n, n) }
+        _ => (rng.usize_in(1, max), rng.usize_in(1, max)),
+    }
+}
+/// pairs of shapes covering every compatible / incompatible pattern of the binary operations
+fn gen_shape_pair(rng: &mut Rng, max: usize) -> ((usize, usize), (usize, usize)) {
+    let (n, p) = gen_shape(rng, max);
+    let other = |rng: &mut Rng, x: usize| { let mut y = rng.usize_in(1, max); if y == x { y = if x < max { x + 1 } else { x - 1 }.max(1); } y };
+    match rng.below(13) {
+        0 | 1 | 2 => ((n, p), (n, p)),
+        3 => ((n, p), (p, n)),
+        4 => ((n, p), (n, other(rng, p))),
+        5 => ((n, p), (other(rng, n), p)),
+        6 => ((n, p), (p, rng.usize_in(1, max))),
+        7 => { let k = rng.usize_in(1, max); (if rng.bool() { (1, k) } else { (k, 1) }, if rng.bool() { (1, k) } else { (k, 1) }) }
+        8 => { let k = rng.usize_in(1, max); let l = other(rng, k); (if rng.bool() { (1, k) } else { (k, 1) }, if rng.bool() { (1, l) } else { (l, 1) }) }
+        9 => { let (k, l) = (rng.usize_in(2, 3), rng.usize_in(2, 3)); if rng.bool() { ((1, k * l), (k, l)) } else { ((k, l), (k * l, 1)) } }
+        10 => ((n, p), (rng.usize_in(1, max), n)),
+        11 => ((1, 1), gen_shape(rng, max)),
+        _ => ((n, p), gen_shape(rng, max)),
+    }
+}
+fn gen_binary(rng: &mut Rng, max: usize) -> Case {
+    let fam = *rng.pick(&FAMILIES);
+    let fam2 = if rng.chance(0.7) { fam } else { *rng.pick(&FAMILIES) };
+    let ((n1, p1), (n2, p2)) = gen_shape_pair(rng, max);
+    let a = gen_rows(rng, n1, p1, fam);
+    let mut b = gen_rows(rng, n2, p2, fam2);
+    if (n1, p1) == (n2, p2) && rng.chance(0.3) {
+        b = a.clone();
+        if rng.bool() { let (r, cc) = (rng.below(n1), rng.below(p1)); b[r][cc] += *rng.pick(&[0.125, -0.5, 1.0]); }
+    }
+    Case { entry: "binary".into(), family: fam.into(), a, b, sub: rng.next_u64(), ..Default::default() }
+}
+
+fn search(k: &mut Ctx, rng: &mut Rng, thorough: bool) {
+    // corpus: the D12 family (all repaired) — all-negative max / all-positive min, flatten after transpose,
+    // dot of column vectors, softmax of negative data, cov, broadcasting shapes
+    let corpus: Vec<Case> = vec![
+        Case { entry: "unary".into(), family: "corpus".into(), a: vec![vec![-1.0, -2.0, -3.0], vec![-4.0, -5.0, -6.0]], sub: 1, ..Default::default() },
+        Case { entry: "unary".into(), family: "corpus".into(), a: vec![vec![1.0, 2.0, 3.0], vec![4.0, 5.0, 6.0]], sub: 2, ..Default::default() },
+        Case { entry: "unary".into(), family: "corpus".into(), a: vec![vec![-1000.0, -1001.0, -1002.0]], sub: 3, ..Default::default() },
+        Case { entry: "binary".into(), family: "corpus".into(), a: vec![vec![1.0], vec![2.0], vec![3.0]], b: vec![vec![4.0], vec![5.0], vec![6.0]], sub: 4, ..Default::default() },
+        Case { entry: "binary".into(), family: "corpus".into(), a: vec![vec![1.0, 2.0, 3.0], vec![4.0, 5.0, 6.0]], b: vec![vec![10.0, 20.0, 30.0]], sub: 5, ..Default::default() },
+        Case { entry: "binary".into(), family: "corpus".into(), a: vec![vec![1.0, 2.0, 3.0], vec![4.0, 5.0, 6.0]], b: vec![vec![10.0], vec![20.0]], sub: 6, ..Default::default() },
+        Case { entry: "binary".into(), family: "corpus".into(), a: vec![vec![1.0, 2.0], vec![3.0, 4.0]], b: vec![vec![7.0]], sub: 7, ..Default::default() },
+        Case { entry: "binary".into(), family: "corpus".into(), a: vec![vec![1.0, 2.0, 3.0, 4.0]], b: vec![vec![5.0, 6.0], vec![7.0, 8.0]], sub: 8, ..Default::default() },
+        Case { entry: "vector".into(), family: "corpus".into(), a: vec![vec![-1.0, -2.0, -3.0]], b: vec![vec![-4.0, -5.0, -6.0]], sub: 9, ..Default::default() },
+        // repaired during this build round: nalgebra dot (1f6c7ea), max_diff on different shapes (99b23b2)
+        Case { entry: "binary".into(), family: "corpus".into(), a: vec![vec![1.0, 2.0, 3.0]], b: vec![vec![4.0], vec![5.0], vec![6.0]], sub: 10, ..Default::default() },
+        Case { entry: "binary".into(), family: "corpus".into(), a: vec![vec![1.0, 2.0], vec![3.0, 4.0]], b: vec![vec![1.0, 2.0], vec![3.0, 4.0]], sub: 11, ..Default::default() },
+        Case { entry: "binary".into(), family: "corpus".into(), a: vec![vec![1.0, 2.0], vec![3.0, 4.0]], b: vec![vec![1.0, 2.0, 3.0], vec![4.0, 5.0, 6.0], vec![7.0, 8.0, 10.0]], sub: 12, ..Default::default() },
+        // ndarray unique() on an owned non-contiguous array returned the hidden elements too (c1b0a65)
+        Case { entry: "unary".into(), family: "corpus".into(), a: vec![vec![1.0], vec![2.0]], sub: 13, ..Default::default() },
+        Case { entry: "vector".into(), family: "corpus".into(), a: vec![vec![1.0, 2.0]], b: vec![vec![2.0, 1.0]], sub: 14, ..Default::default() },
+    ];
+    for c in &corpus {
+        record(k, c);
+    }
+    let maxd = 8;
+    let scale = if thorough { 12 } else { 2 };
+    // every shape 1..8 x 1..8 at least once (twice in the thorough tier) for the one-matrix oracle
+    for rep in 0..(if thorough { 3 } else { 1 }) {
+        for n in 1..=maxd {
+            for p in 1..=maxd {
+                let fam = if rep == 0 { ["dyadic-mixed", "all-negative", "positive"][(n + p) % 3] } else { *rng.pick(&FAMILIES) };
+                let c = Case { entry: "unary".into(), family: fam.into(), a: gen_rows(rng, n, p, fam), sub: rng.next_u64(), ..Default::default() };
+                if n == 2 && p == 3 && rep == 0 { k.out.sample(c.to_json()); }
+                record(k, &c);
+            }
+        }
+    }
+    for _ in 0..120 * scale {
+        let fam = *rng.pick(&FAMILIES);
+        let (n, p) = gen_shape(rng, maxd);
+        record(k, &Case { entry: "unary".into(), family: fam.into(), a: gen_rows(rng, n, p, fam), sub: rng.next_u64(), ..Default::default() });
+    }
+    for i in 0..500 * scale {
+        let c = gen_binary(rng, if i % 3 == 0 { maxd } else { 5 });
+        if i == 0 { k.out.sample(c.to_json()); }
+        record(k, &c);
+    }
+    for _ in 0..200 * scale {
+        let fam = *rng.pick(&FAMILIES);
+        let n1 = rng.usize_in(1, maxd);
+        let n2 = if rng.chance(0.7) { n1 } else { rng.usize_in(1, maxd) };
+        let a = gen_rows(rng, 1, n1, fam);
+        let mut b = gen_rows(rng, 1, n2, fam);
+        if n1 == n2 && rng.chance(0.3) { b = a.clone(); if rng.bool() { b[0][rng.below(n1)] += 0.5; } }
+        record(k, &Case { entry: "vector".into(), family: fam.into(), a, b, sub: rng.next_u64(), ..Default::default() });
+    }
+}
+
+// ------------------------------------------------------------------------------------------
+// correspondence with C03's model (terms over SC.C20.Corr)
+// ------------------------------------------------------------------------------------------
+const CORR_FAMILIES: [&str; 8] = ["dyadic-mixed", "dyadic-mixed", "all-negative", "positive", "integers", "negative-integers", "continuous", "large"];
+
+fn put_all(out: &mut Out, backend: &str, lay: &str, dense: bool, obs: &[Obs], shape: Value, fam: &str) {
+    for o in obs {
+        out.corr(&format!("{}:{}", backend, o.op), o.term(dense), json!({"backend": backend, "layout": lay, "op": o.op, "shape": shape, "family": fam}));
+    }
+}
+
+fn correspondence(out: &mut Out, rng: &mut Rng, thorough: bool) {
+    let maxd = 8;
+    // one-matrix operations: every shape 1..8 x 1..8 in the thorough tier, a stratified sample otherwise;
+    // each on all three backends, in standard and in transposed layout
+    let mut shapes: Vec<(usize, usize)> = vec![];
+    for n in 1..=maxd { for p in 1..=maxd { shapes.push((n, p)); } }
+    rng.shuffle(&mut shapes);
+    let must = [(1usize, 1usize), (1, 5), (5, 1), (2, 3), (3, 2), (8, 8)];
+    let mut chosen: Vec<(usize, usize)> = must.to_vec();
+    let extra = if thorough { 64 } else { 14 };
+    chosen.extend(shapes.into_iter().filter(|s| !must.contains(s)).take(extra));
+    for (i, (n, p)) in chosen.iter().enumerate() {
+        let fam = CORR_FAMILIES[(i + rng.below(8)) % 8];
+        let a = gen_rows(rng, *n, *p, fam);
+        let sub = rng.next_u64();
+        let lays: Vec<Lay> = if thorough || i % 2 == 0 { vec![Lay::Std, Lay::Tr] } else { vec![Lay::Tr] };
+        for lay in lays {
+            let ls = format!("{:?}", lay);
+            put_all(out, "dense", &ls, true, &unary_obs::<DenseMatrix<f64>>(&a, lay, sub), json!([n, p]), fam);
+            put_all(out, "ndarray", &ls, false, &unary_obs::<Array2<f64>>(&a, lay, sub), json!([n, p]), fam);
+            put_all(out, "nalgebra", &ls, false, &unary_obs::<DMatrix<f64>>(&a, lay, sub), json!([n, p]), fam);
+        }
+        if thorough || i % 2 == 1 {
+            // owned, non-contiguous ndarray operand (every second row / column of a larger allocation)
+            put_all(out, "ndarray", "Strided", false, &unary_obs::<Array2<f64>>(&a, Lay::Strided, sub), json!([n, p]), fam);
+        }
+    }
+    for i in 0..(if thorough { 400 } else { 60 }) {
+        let c = gen_binary(rng, if i % 3 == 0 { maxd } else { 5 });
+        let (l1, l2) = lays3()[i % 3];
+        let ls = format!("{:?}{:?}", l1, l2);
+        let sh = json!([shape_of(&c.a).0, shape_of(&c.a).1, shape_of(&c.b).0, shape_of(&c.b).1]);
+        put_all(out, "dense", &ls, true, &binary_obs::<DenseMatrix<f64>>(&c.a, &c.b, l1, l2, c.sub), sh.clone(), &c.family);
+        put_all(out, "ndarray", &ls, false, &binary_obs::<Array2<f64>>(&c.a, &c.b, l1, l2, c.sub), sh.clone(), &c.family);
+        put_all(out, "nalgebra", &ls, false, &binary_obs::<DMatrix<f64>>(&c.a, &c.b, l1, l2, c.sub), sh, &c.family);
+    }
+    for _ in 0..(if thorough { 150 } else { 24 }) {
+        let fam = *rng.pick(&CORR_FAMILIES);
+        let n1 = rng.usize_in(1, maxd);
+        let n2 = if rng.chance(0.7) { n1 } else { rng.usize_in(1, maxd) };
+        let a = gen_rows(rng, 1, n1, fam).remove(0);
+        let mut b = gen_rows(rng, 1, n2, fam).remove(0);
+        if n1 == n2 && rng.chance(0.3) { b = a.clone(); }
+        let sub = rng.next_u64();
+        put_all(out, "dense", "-", true, &vector_obs::<DenseMatrix<f64>>(&a, &b, sub, false), json!([n1, n2]), fam);
+        put_all(out, "ndarray", "-", false, &vector_obs::<Array2<f64>>(&a, &b, sub, false), json!([n1, n2]), fam);
+        put_all(out, "nalgebra", "-", false, &vector_obs::<DMatrix<f64>>(&a, &b, sub, false), json!([n1, n2]), fam);
+        put_all(out, "ndarray", "Strided", false, &vector_obs::<Array2<f64>>(&a, &b, sub, true), json!([n1, n2]), fam);
+    }
 }
 
 fn main() {
     quiet_panics();
-    probe::<DenseMatrix<f64>>("dense");
-    probe::<Array2<f64>>("ndarray");
-    probe::<DMatrix<f64>>("nalgebra");
+    let a = args();
+    if let Some(p) = &a.replay {
+        std::process::exit(replay(p));
+    }
+    let mut rng = Rng::new(a.seed);
+    let out = Out::new(
+        "C20",
+        "search case = (entry, data[, second operand | targets and query rows], parameter seed); method entries: every BaseMatrix / BaseVector / stats / high-order method is evaluated on DenseMatrix, ndarray and nalgebra operands in standard and transposed layout and the results are compared with each other and with definitions on the logical view; algorithm entries: one decomposition / estimator on identical data on the three backends; non-trivial: non-square shape, data with negative entries, or an algorithm case; distinct by hash of all inputs",
+    );
+    let mut k = Ctx { out, listed: listed_findings() };
+    let mut r1 = rng.fork();
+    search(&mut k, &mut r1, a.thorough);
+    let mut r3 = rng.fork();
+    algos::search(&mut r3, a.thorough, &mut |c: &Case| record(&mut k, c));
+    let mut r2 = rng.fork();
+    correspondence(&mut k.out, &mut r2, a.thorough);
+    k.out.set("largest_relative_difference_between_backends_by_algorithm", json!(*algos::MAXREL.lock().unwrap()));
+    k.out.finish(&a.out);
+}
+
+// ------------------------------------------------------------------------------------------
+// decompositions and estimators on identical data across the three backends
+// ------------------------------------------------------------------------------------------
+mod algos {
+    use super::*;
+    use smartcore::algorithm::neighbour::KNNAlgorithmName;
+    use smartcore::decomposition::pca::{PCAParameters, PCA};
+    use smartcore::decomposition::svd::{SVDParameters, SVD};
+    use smartcore::ensemble::random_forest_classifier::{RandomForestClassifier, RandomForestClassifierParameters};
+    use smartcore::ensemble::random_forest_regressor::{RandomForestRegressor, RandomForestRegressorParameters};
+    use smartcore::error::Failed;
+    use smartcore::linalg::cholesky::CholeskyDecomposableMatrix;
+    use smartcore::linalg::evd::EVDDecomposableMatrix;
+    use smartcore::linalg::lu::LUDecomposableMatrix;
+    use smartcore::linalg::qr::QRDecomposableMatrix;
+    use smartcore::linalg::svd::SVDDecomposableMatrix;
+    use smartcore::linear::elastic_net::{ElasticNet, ElasticNetParameters};
+    use smartcore::linear::lasso::{Lasso, LassoParameters};
+    use smartcore::linear::linear_regression::{LinearRegression, LinearRegressionParameters, LinearRegressionSolverName};
+    use smartcore::linear::logistic_regression::{LogisticRegression, LogisticRegressionParameters};
+    use smartcore::linear::ridge_regression::{RidgeRegression, RidgeRegressionParameters, RidgeRegressionSolverName};
+    use smartcore::naive_bayes::bernoulli::{BernoulliNB, BernoulliNBParameters};
+    use smartcore::naive_bayes::categorical::{CategoricalNB, CategoricalNBParameters};
+    use smartcore::naive_bayes::gaussian::{GaussianNB, GaussianNBParameters};
+    use smartcore::naive_bayes::multinomial::{MultinomialNB, MultinomialNBParameters};
+    use smartcore::neighbors::knn_classifier::{KNNClassifier, KNNClassifierParameters};
+    use smartcore::neighbors::knn_regressor::{KNNRegressor, KNNRegressorParameters};
+    use smartcore::neighbors::KNNWeightFunction;
+    use smartcore::preprocessing::categorical::{OneHotEncoder, OneHotEncoderParams};
+    use smartcore::svm::svr::{SVRParameters, SVR};
+    use smartcore::svm::Kernels;
+    use smartcore::tree::decision_tree_classifier::{DecisionTreeClassifier, DecisionTreeClassifierParameters, SplitCriterion};
+    use smartcore::tree::decision_tree_regressor::{DecisionTreeRegressor, DecisionTreeRegressorParameters};
+
+    pub type Items = Vec<(String, Val)>;
+
+    fn rm<M: BaseMatrix<f64>>(r: Result<M, Failed>) -> Val {
+        match r {
+            Ok(m) => vm(&m),
+            Err(_) => Val::Failed,
+        }
+    }
+    fn rv<V: BaseVector<f64>>(r: Result<V, Failed>) -> Val {
+        match r {
+            Ok(v) => vr(&v),
+            Err(_) => Val::Failed,
+        }
+    }
+    fn put<F: FnOnce() -> Val>(o: &mut Items, name: &str, f: F) {
+        o.push((name.to_string(), g(f)));
+    }
+    fn lay_of(sub: u64) -> Lay {
+        if sub & 1 == 1 { Lay::Tr } else { Lay::Std }
+    }
+
+    pub const DECOMPS: [&str; 6] = ["svd", "evd-symmetric", "evd-general", "qr", "lu", "cholesky"];
+
+    fn decomposition<B: Bk>(c: &Case) -> Items {
+        let mut o: Items = vec![];
+        let a: B = build::<B>(&c.a, lay_of(c.sub));
+        let b: B = build::<B>(&c.b, lay_of(c.sub >> 1));
+        match c.algo.as_str() {
+            "svd" => {
+                match guard(|| a.svd()) {
+                    Ok(Ok(d)) => {
+                        put(&mut o, "U", || vm(&d.U));
+                        put(&mut o, "V", || vm(&d.V));
+                        put(&mut o, "s", || vl(&d.s));
+                        put(&mut o, "S()", || vm(&d.S()));
+                    }
+                    Ok(Err(_)) => o.push(("svd".into(), Val::Failed)),
+                    Err(_) => o.push(("svd".into(), Val::Panic)),
+                }
+                put(&mut o, "svd_solve", || rm(a.svd_solve(b.clone())));
+            }
+            "evd-symmetric" | "evd-general" => {
+                let sym = c.algo == "evd-symmetric";
+                match guard(|| a.evd(sym)) {
+                    Ok(Ok(d)) => {
+                        put(&mut o, "d", || vl(&d.d));
+                        put(&mut o, "e", || vl(&d.e));
+                        put(&mut o, "V", || vm(&d.V));
+                    }
+                    Ok(Err(_)) => o.push(("evd".into(), Val::Failed)),
+                    Err(_) => o.push(("evd".into(), Val::Panic)),
+                }
+            }
+            "qr" => {
+                match guard(|| a.qr()) {
+                    Ok(Ok(d)) => {
+                        put(&mut o, "Q", || vm(&d.Q()));
+                        put(&mut o, "R", || vm(&d.R()));
+                    }
+                    Ok(Err(_)) => o.push(("qr".into(), Val::Failed)),
+                    Err(_) => o.push(("qr".into(), Val::Panic)),
+                }
+                put(&mut o, "qr_solve_mut", || rm(a.clone().qr_solve_mut(b.clone())));
+            }
+            "lu" => {
+                match guard(|| a.lu()) {
+                    Ok(Ok(d)) => {
+                        put(&mut o, "L", || vm(&d.L()));
+                        put(&mut o, "U", || vm(&d.U()));
+                        put(&mut o, "pivot", || vm(&d.pivot()));
+                        put(&mut o, "inverse", || rm(d.inverse()));
+                    }
+                    Ok(Err(_)) => o.push(("lu".into(), Val::Failed)),
+                    Err(_) => o.push(("lu".into(), Val::Panic)),
+                }
+                put(&mut o, "lu_solve_mut", || rm(a.clone().lu_solve_mut(b.clone())));
+            }
+            _ => {
+                match guard(|| a.cholesky()) {
+                    Ok(Ok(d)) => {
+                        put(&mut o, "L", || vm(&d.L()));
+                        put(&mut o, "U", || vm(&d.U()));
+                    }
+                    Ok(Err(_)) => o.push(("cholesky".into(), Val::Failed)),
+                    Err(_) => o.push(("cholesky".into(), Val::Panic)),
+                }
+                put(&mut o, "cholesky_solve_mut", || rm(a.clone().cholesky_solve_mut(b.clone())));
+            }
+        }
+        o
+    }
+
+    pub const REGRESSORS: [&str; 11] = ["linear-qr", "linear-svd", "ridge-cholesky", "ridge-svd", "lasso", "elastic-net", "knn-regressor", "tree-regressor", "forest-regressor", "svr-linear", "svr-rbf"];
+    pub const CLASSIFIERS: [&str; 5] = ["logistic", "gaussian-nb", "knn-classifier", "tree-classifier", "forest-classifier"];
+    pub const OTHERS: [&str; 8] = ["bernoulli-nb", "multinomial-nb", "categorical-nb", "pca", "pca-correlation", "truncated-svd", "one-hot", "metrics"];
+
+    fn estimator<B: Bk>(c: &Case) -> Items {
+        let mut o: Items = vec![];
+        let mut q = Rng::new(c.sub);
+        let lay = lay_of(c.sub);
+        let y = vmk::<B>(&c.y);
+        if c.algo == "metrics" {
+            // y: true labels in {0,1}; q[0]: predicted labels; q[1]: scores; q[2], q[3]: real-valued truth / prediction
+            let yp = vmk::<B>(&c.q[0]);
+            let sc = vmk::<B>(&c.q[1]);
+            let (rt, rp) = (vmk::<B>(&c.q[2]), vmk::<B>(&c.q[3]));
+            use smartcore::metrics::*;
+            put(&mut o, "accuracy", || Val::F(accuracy(&y, &yp)));
+            put(&mut o, "recall", || Val::F(recall(&y, &yp)));
+            put(&mut o, "precision", || Val::F(precision(&y, &yp)));
+            put(&mut o, "f1", || Val::F(f1(&y, &yp, 1.0)));
+            put(&mut o, "roc_auc_score", || Val::F(roc_auc_score(&y, &sc)));
+            put(&mut o, "mean_squared_error", || Val::F(mean_squared_error(&rt, &rp)));
+            put(&mut o, "mean_absolute_error", || Val::F(mean_absolute_error(&rt, &rp)));
+            put(&mut o, "r2", || Val::F(r2(&rt, &rp)));
+            put(&mut o, "homogeneity_score", || Val::F(homogeneity_score(&y, &yp)));
+            put(&mut o, "completeness_score", || Val::F(completeness_score(&y, &yp)));
+            put(&mut o, "v_measure_score", || Val::F(v_measure_score(&y, &yp)));
+            return o;
+        }
+        let x: B = build::<B>(&c.a, lay);
+        let t: B = if c.q.is_empty() { x.clone() } else { build::<B>(&c.q, lay) };
+        macro_rules! fitted {
+            ($fit:expr, |$m:ident| $body:block) => {
+                match guard(|| $fit) {
+                    Ok(Ok($m)) => $body,
+                    Ok(Err(_)) => o.push(("fit".into(), Val::Failed)),
+                    Err(_) => o.push(("fit".into(), Val::Panic)),
+                }
+            };
+        }
+        match c.algo.as_str() {
+            "linear-qr" | "linear-svd" => {
+                let solver = if c.algo == "linear-qr" { LinearRegressionSolverName::QR } else { LinearRegressionSolverName::SVD };
+                fitted!(LinearRegression::fit(&x, &y, LinearRegressionParameters::default().with_solver(solver)), |m| {
+                    put(&mut o, "coefficients", || vm(m.coefficients()));
+                    put(&mut o, "intercept", || Val::F(m.intercept()));
+                    put(&mut o, "predict", || rv(m.predict(&t)));
+                });
+            }
+            "ridge-cholesky" | "ridge-svd" => {
+                let solver = if c.algo == "ridge-cholesky" { RidgeRegressionSolverName::Cholesky } else { RidgeRegressionSolverName::SVD };
+                let alpha = *q.pick(&[0.01, 0.5, 1.0, 10.0]);
+                let norm = q.bool();
+                fitted!(RidgeRegression::fit(&x, &y, RidgeRegressionParameters::default().with_alpha(alpha).with_normalize(norm).with_solver(solver)), |m| {
+                    put(&mut o, "coefficients", || vm(m.coefficients()));
+                    put(&mut o, "intercept", || Val::F(m.intercept()));
+                    put(&mut o, "predict", || rv(m.predict(&t)));
+                });
+            }
+            "lasso" => {
+                let alpha = *q.pick(&[0.001, 0.05, 0.5]);
+                let norm = q.bool();
+                fitted!(Lasso::fit(&x, &y, LassoParameters::default().with_alpha(alpha).with_normalize(norm)), |m| {
+                    put(&mut o, "coefficients", || vm(m.coefficients()));
+                    put(&mut o, "intercept", || Val::F(m.intercept()));
+                    put(&mut o, "predict", || rv(m.predict(&t)));
+                });
+            }
+            "elastic-net" => {
+                let alpha = *q.pick(&[0.001, 0.05, 0.5]);
+                let l1 = *q.pick(&[0.2, 0.5, 0.9]);
+                let norm = q.bool();
+                fitted!(ElasticNet::fit(&x, &y, ElasticNetParameters::default().with_alpha(alpha).with_l1_ratio(l1).with_normalize(norm)), |m| {
+                    put(&mut o, "coefficients", || vm(m.coefficients()));
+                    put(&mut o, "intercept", || Val::F(m.intercept()));
+                    put(&mut o, "predict", || rv(m.predict(&t)));
+                });
+            }
+            "logistic" => {
+                let alpha = *q.pick(&[0.0, 0.1, 1.0]);
+                fitted!(LogisticRegression::fit(&x, &y, LogisticRegressionParameters::default().with_alpha(alpha)), |m| {
+                    put(&mut o, "coefficients", || vm(m.coefficients()));
+                    put(&mut o, "intercept", || vm(m.intercept()));
+                    put(&mut o, "predict", || rv(m.predict(&t)));
+                });
+            }
+            "gaussian-nb" => {
+                fitted!(GaussianNB::fit(&x, &y, GaussianNBParameters::default()), |m| {
+                    put(&mut o, "predict", || rv(m.predict(&t)));
+                });
+            }
+            "bernoulli-nb" => {
+                let alpha = *q.pick(&[1.0, 0.5]);
+                fitted!(BernoulliNB::fit(&x, &y, BernoulliNBParameters::default().with_alpha(alpha).with_binarize(0.5)), |m| {
+                    put(&mut o, "predict", || rv(m.predict(&t)));
+                });
+            }
+            "multinomial-nb" => {
+                let alpha = *q.pick(&[1.0, 0.5]);
+                fitted!(MultinomialNB::fit(&x, &y, MultinomialNBParameters::default().with_alpha(alpha)), |m| {
+                    put(&mut o, "predict", || rv(m.predict(&t)));
+                });
+            }
+            "categorical-nb" => {
+                let alpha = *q.pick(&[1.0, 0.5]);
+                fitted!(CategoricalNB::fit(&x, &y, CategoricalNBParameters::default().with_alpha(alpha)), |m| {
+                    put(&mut o, "predict", || rv(m.predict(&t)));
+                });
+            }
+            "knn-classifier" | "knn-regressor" => {
+                let n = c.a.len();
+                let k = q.usize_in(1, n.min(5));
+                let alg = if q.bool() { KNNAlgorithmName::CoverTree } else { KNNAlgorithmName::LinearSearch };
+                let wf = if q.bool() { KNNWeightFunction::Distance } else { KNNWeightFunction::Uniform };
+                if c.algo == "knn-classifier" {
+                    fitted!(KNNClassifier::fit(&x, &y, KNNClassifierParameters::default().with_k(k).with_algorithm(alg).with_weight(wf)), |m| {
+                        put(&mut o, "predict", || rv(m.predict(&t)));
+                    });
+                } else {
+                    fitted!(KNNRegressor::fit(&x, &y, KNNRegressorParameters::default().with_k(k).with_algorithm(alg).with_weight(wf)), |m| {
+                        put(&mut o, "predict", || rv(m.predict(&t)));
+                    });
+                }
+            }
+            "tree-classifier" => {
+                let crit = *q.pick(&[0usize, 1, 2]);
+                let mut pr = DecisionTreeClassifierParameters::default()
+                    .with_criterion(match crit { 0 => SplitCriterion::Gini, 1 => SplitCriterion::Entropy, _ => SplitCriterion::ClassificationError })
+                    .with_min_samples_leaf(q.usize_in(1, 3))
+                    .with_min_samples_split(q.usize_in(2, 4));
+                if q.bool() { pr = pr.with_max_depth(q.usize_in(1, 4) as u16); }
+                fitted!(DecisionTreeClassifier::fit(&x, &y, pr), |m| {
+                    put(&mut o, "predict", || rv(m.predict(&t)));
+                });
+            }
+            "tree-regressor" => {
+                let mut pr = DecisionTreeRegressorParameters::default().with_min_samples_leaf(q.usize_in(1, 3)).with_min_samples_split(q.usize_in(2, 4));
+                if q.bool() { pr = pr.with_max_depth(q.usize_in(1, 4) as u16); }
+                fitted!(DecisionTreeRegressor::fit(&x, &y, pr), |m| {
+                    put(&mut o, "predict", || rv(m.predict(&t)));
+                });
+            }
+            "forest-classifier" => {
+                let pr = RandomForestClassifierParameters::default().with_n_trees(q.usize_in(2, 6) as u16).with_max_depth(q.usize_in(2, 5) as u16).with_seed(q.next_u64() % 1000);
+                fitted!(RandomForestClassifier::fit(&x, &y, pr), |m| {
+                    put(&mut o, "predict", || rv(m.predict(&t)));
+                });
+            }
+            "forest-regressor" => {
+                let pr = RandomForestRegressorParameters::default().with_n_trees(q.usize_in(2, 6)).with_max_depth(q.usize_in(2, 5) as u16).with_seed(q.next_u64() % 1000);
+                fitted!(RandomForestRegressor::fit(&x, &y, pr), |m| {
+                    put(&mut o, "predict", || rv(m.predict(&t)));
+                });
+            }
+            "svr-linear" => {
+                let (cc, eps) = (*q.pick(&[1.0, 10.0]), *q.pick(&[0.05, 0.2]));
+                fitted!(SVR::fit(&x, &y, SVRParameters::default().with_c(cc).with_eps(eps)), |m| {
+                    put(&mut o, "predict", || rv(m.predict(&t)));
+                });
+            }
+            "svr-rbf" => {
+                let (cc, eps, gamma) = (*q.pick(&[1.0, 10.0]), *q.pick(&[0.05, 0.2]), *q.pick(&[0.1, 0.5]));
+                fitted!(SVR::fit(&x, &y, SVRParameters::default().with_c(cc).with_eps(eps).with_kernel(Kernels::rbf(gamma))), |m| {
+                    put(&mut o, "predict", || rv(m.predict(&t)));
+                });
+            }
+            "pca" | "pca-correlation" => {
+                let p = shape_of(&c.a).1;
+                let k = q.usize_in(1, p);
+                fitted!(PCA::fit(&x, PCAParameters::default().with_n_components(k).with_use_correlation_matrix(c.algo == "pca-correlation")), |m| {
+                    put(&mut o, "components", || vm(m.components()));
+                    put(&mut o, "transform", || rm(m.transform(&t)));
+                });
+            }
+            "truncated-svd" => {
+                let p = shape_of(&c.a).1;
+                let k = q.usize_in(1, (p - 1).max(1));
+                fitted!(SVD::fit(&x, SVDParameters::default().with_n_components(k)), |m| {
+                    put(&mut o, "components", || vm(m.components()));
+                    put(&mut o, "transform", || rm(m.transform(&t)));
+                });
+            }
+            "one-hot" => {
+                // the categorical columns are those whose training values are all small non-negative integers
+                let p = shape_of(&c.a).1;
+                let cats: Vec<usize> = (0..p).filter(|j| c.a.iter().all(|r| r[*j] >= 0.0 && r[*j] == r[*j].floor() && r[*j] < 8.0)).collect();
+                fitted!(OneHotEncoder::fit(&x, OneHotEncoderParams::from_cat_idx(&cats)), |m| {
+                    put(&mut o, "transform(train)", || rm(m.transform(&x)));
+                    put(&mut o, "transform(other)", || rm(m.transform(&t)));
+                });
+            }
+            other => o.push((format!("unknown algorithm {}", other), Val::Panic)),
+        }
+        o
+    }
+
+    fn on_backend<B: Bk>(c: &Case) -> Items {
+        let cc = c.clone();
+        let r = with_watchdog(WATCHDOG_SECS, move || if cc.entry == "decomposition" { decomposition::<B>(&cc) } else { estimator::<B>(&cc) });
+        match r {
+            Some(Ok(items)) => items,
+            Some(Err(_)) => vec![("whole run".into(), Val::Panic)],
+            None => vec![("whole run".into(), Val::Timeout)],
+        }
+    }
+    const WATCHDOG_SECS: u64 = 20;
+    /// largest observed |dense - other| / max(1, magnitude) per algorithm (printed into the evidence)
+    pub static MAXREL: std::sync::Mutex<std::collections::BTreeMap<String, f64>> = std::sync::Mutex::new(std::collections::BTreeMap::new());
+
+    fn scale_of(v: &Val) -> f64 {
+        match v {
+            Val::F(x) => x.abs(),
+            Val::L(x) | Val::M(_, _, x) => maxabs(x),
+            _ => 0.0,
+        }
+    }
+    fn max_diff(a: &Val, b: &Val) -> f64 {
+        let d = |x: &[f64], y: &[f64]| x.iter().zip(y.iter()).map(|(p, q)| if same(*p, *q) { 0.0 } else { (p - q).abs() }).fold(0.0, f64::max);
+        match (a, b) {
+            (Val::F(x), Val::F(y)) => d(&[*x], &[*y]),
+            (Val::L(x), Val::L(y)) | (Val::M(_, _, x), Val::M(_, _, y)) if x.len() == y.len() => d(x, y),
+            _ => 0.0,
+        }
+    }
+
+    /// flip the sign of column j of `components` and `transform` of `other` where that brings the component
+    /// closer to the reference's; returns the number of flipped columns
+    fn align_signs(reference: &Items, other: &mut Items) -> usize {
+        let comp = |it: &Items| it.iter().find(|(n, _)| n == "components").map(|(_, x)| x.clone());
+        let (r, o) = match (comp(reference), comp(other)) {
+            (Some(Val::M(n, k, r)), Some(Val::M(n2, k2, o))) if n == n2 && k == k2 => ((n, k, r), o),
+            _ => return 0,
+        };
+        let (n, k, rv) = r;
+        let mut flip = vec![false; k];
+        for j in 0..k {
+            let (mut dp, mut dm) = (0.0f64, 0.0f64);
+            for i in 0..n {
+                dp = dp.max((rv[i * k + j] - o[i * k + j]).abs());
+                dm = dm.max((rv[i * k + j] + o[i * k + j]).abs());
+            }
+            flip[j] = dm < dp;
+        }
+        for (name, x) in other.iter_mut() {
+            if name == "components" || name == "transform" {
+                if let Val::M(_, kk, vals) = x {
+                    if *kk == k {
+                        for (idx, t) in vals.iter_mut().enumerate() {
+                            if flip[idx % k] { *t = -*t; }
+                        }
+                    }
+                }
+            }
+        }
+        flip.iter().filter(|b| **b).count()
+    }
+
+    /// relative tolerance (times max(1, largest magnitude in the item)) by algorithm: the generic code is
+    /// the same on all backends, only the primitives' rounding differs (sum / dot / matmul orders), and the
+    /// iterative solvers stop by thresholds, so they may differ by a small multiple of their own tolerance
+    fn rel_tol(algo: &str) -> f64 {
+        match algo {
+            "lasso" | "elastic-net" => 1e-6,
+            "logistic" => 1e-4,
+            "svr-linear" | "svr-rbf" => 1e-6,
+            _ => 1e-9,
+        }
+    }
+
+    pub fn run_algo(c: &Case) -> Verdict {
+        let mut v = Verdict::default();
+        let res: Vec<(&str, Items)> = vec![
+            ("dense", on_backend::<DenseMatrix<f64>>(c)),
+            ("ndarray", on_backend::<Array2<f64>>(c)),
+            ("nalgebra", on_backend::<DMatrix<f64>>(c)),
+        ];
+        let timed_out: Vec<&str> = res.iter().filter(|(_, it)| it.iter().any(|(_, x)| *x == Val::Timeout)).map(|(n, _)| *n).collect();
+        if timed_out.len() == 3 {
+            // does not return on any backend: not a backend difference (termination itself belongs to the
+            // estimator's own property); counted
+            v.notes.push(format!("excluded:no-backend-returned-within-{}s:{}", WATCHDOG_SECS, c.algo));
+            return v;
+        }
+        if !timed_out.is_empty() {
+            v.fail("terminates_on_all_backends", format!("{} did not return within {} s on {:?} but did on the other backend(s)", c.algo, WATCHDOG_SECS, timed_out));
+            return v;
+        }
+        let mut res = res;
+        // principal directions are determined up to sign: a rounding-level difference between backends may
+        // flip a column of `components` (and with it the same column of `transform`); align the signs with
+        // the dense result before comparing, and count the flips
+        if matches!(c.algo.as_str(), "pca" | "pca-correlation" | "truncated-svd") {
+            let d0 = res[0].1.clone();
+            for bi in 1..3 {
+                let flips = align_signs(&d0, &mut res[bi].1);
+                if flips > 0 {
+                    v.notes.push(format!("observe:component-sign-aligned:{}", c.algo));
+                }
+            }
+        }
+        // unpenalised logistic regression on (nearly) separable data has no finite optimum: the coefficients
+        // the optimiser stops at are not determined up to rounding; only the predictions are compared then
+        if c.algo == "logistic" {
+            let big = res.iter().any(|(_, it)| it.iter().any(|(n, x)| n == "coefficients" && scale_of(x) > 30.0));
+            if big {
+                v.notes.push("excluded:logistic-diverging-coefficients(predictions-only)".to_string());
+                for (_, it) in res.iter_mut() {
+                    it.retain(|(n, _)| n == "predict" || n == "fit");
+                }
+            }
+        }
+        let (_, d) = &res[0];
+        let tol_rel = rel_tol(&c.algo);
+        let mut bit_identical = true;
+        for (name, it) in res.iter().skip(1) {
+            if it.len() != d.len() || it.iter().zip(d.iter()).any(|((a, _), (b, _))| a != b) {
+                v.fail("backends_agree", format!("{}: dense produced items {:?}, {} produced {:?}", c.algo, d.iter().map(|(n, x)| format!("{}={}", n, val_short(x))).collect::<Vec<_>>(), name, it.iter().map(|(n, x)| format!("{}={}", n, val_short(x))).collect::<Vec<_>>()));
+                continue;
+            }
+            for ((item, x), (_, y)) in d.iter().zip(it.iter()) {
+                let tol = tol_rel * scale_of(x).max(scale_of(y)).max(1.0);
+                if !val_close(x, y, 0.0) {
+                    bit_identical = false;
+                }
+                {
+                    let rel = max_diff(x, y) / scale_of(x).max(scale_of(y)).max(1.0);
+                    let mut mr = MAXREL.lock().unwrap();
+                    let e = mr.entry(c.algo.clone()).or_insert(0.0);
+                    if rel > *e { *e = rel; }
+                }
+                if !val_close(x, y, tol) {
+                    v.fail("backends_agree", format!("{} / {}: dense {} | {} {} (largest difference {:e}, tolerance {:e})", c.algo, item, val_short(x), name, val_short(y), max_diff(x, y), tol));
+                }
+            }
+        }
+        v.notes.push(format!("observe:{}:{}", if bit_identical { "bit-identical-on-all-backends" } else { "within-tolerance" }, c.algo));
+        if d.iter().any(|(_, x)| matches!(x, Val::Failed | Val::Panic)) {
+            v.notes.push(format!("observe:rejected-alike-by-all-backends:{}", c.algo));
+        }
+        v
+    }
+
+    // ---------------------------------------------------------------- generators
+    fn spd(rng: &mut Rng, p: usize) -> Rows {
+        let n = p + rng.usize_in(0, 3);
+        let g = gen_rows(rng, n, p, "continuous");
+        (0..p).map(|i| (0..p).map(|j| (0..n).map(|k| g[k][i] * g[k][j]).sum::<f64>() + if i == j { 1.0 } else { 0.0 }).collect()).collect()
+    }
+    fn gen_decomp(rng: &mut Rng, algo: &str) -> Case {
+        let fam = *rng.pick(&["continuous", "dyadic-mixed", "all-negative", "positive", "integers"]);
+        let (a, rows_b): (Rows, usize) = match algo {
+            "svd" => { let (n, p) = (rng.usize_in(1, 8), rng.usize_in(1, 8)); (gen_rows(rng, n, p, fam), n) }
+            "qr" => { let p = rng.usize_in(1, 8); let n = rng.usize_in(p, 8); (gen_rows(rng, n, p, fam), n) }
+            "evd-symmetric" => { let n = rng.usize_in(1, 8); let g = gen_rows(rng, n, n, fam); ((0..n).map(|i| (0..n).map(|j| (g[i][j] + g[j][i]) / 2.0).collect()).collect(), n) }
+            "evd-general" | "lu" => { let n = rng.usize_in(1, 8); (gen_rows(rng, n, n, fam), n) }
+            _ => { let p = rng.usize_in(1, 8); (spd(rng, p), p) }
+        };
+        let kb = rng.usize_in(1, 3);
+        let b = gen_rows(rng, rows_b, kb, "continuous");
+        Case { entry: "decomposition".into(), family: fam.into(), algo: algo.into(), a, b, sub: rng.next_u64(), ..Default::default() }
+    }
+    fn gen_estimator(rng: &mut Rng, algo: &str) -> Case {
+        let mut c = Case { entry: "estimator".into(), algo: algo.into(), sub: rng.next_u64(), ..Default::default() };
+        let p = rng.usize_in(1, 4);
+        let n = rng.usize_in(p + 6, 30);
+        let nq = rng.usize_in(1, 8);
+        let scales: Vec<f64> = (0..p).map(|_| *rng.pick(&[1.0, 1.0, 0.1, 10.0])).collect();
+        let offs: Vec<f64> = (0..p).map(|_| *rng.pick(&[0.0, 0.0, 5.0, -20.0])).collect();
+        let cont = |rng: &mut Rng, n: usize| -> Rows { (0..n).map(|_| (0..p).map(|j| offs[j] + scales[j] * rng.normal()).collect()).collect() };
+        if REGRESSORS.contains(&algo) {
+            c.family = "regression".into();
+            c.a = cont(rng, n);
+            c.q = cont(rng, nq);
+            let w: Vec<f64> = (0..p).map(|_| rng.uniform(-2.0, 2.0)).collect();
+            let b0 = rng.uniform(-3.0, 3.0);
+            c.y = c.a.iter().map(|r| b0 + r.iter().zip(w.iter()).zip(scales.iter()).map(|((x, w), s)| x * w / s).sum::<f64>() + 0.3 * rng.normal()).collect();
+        } else if CLASSIFIERS.contains(&algo) {
+            c.family = "classification".into();
+            let k = rng.usize_in(2, 3);
+            let spread = if algo == "logistic" { 1.0 } else { 2.5 };
+            let centers: Rows = (0..k).map(|_| (0..p).map(|j| offs[j] + scales[j] * rng.uniform(-spread, spread)).collect()).collect();
+            let mut lab: Vec<usize> = (0..n).map(|i| if i < k { i } else { rng.below(k) }).collect();
+            rng.shuffle(&mut lab);
+            c.a = lab.iter().map(|l| (0..p).map(|j| centers[*l][j] + scales[j] * rng.normal()).collect()).collect();
+            c.y = lab.iter().map(|l| *l as f64).collect();
+            c.q = (0..nq).map(|_| { let l = rng.below(k); (0..p).map(|j| centers[l][j] + scales[j] * rng.normal()).collect() }).collect();
+        } else {
+            match algo {
+                "bernoulli-nb" | "multinomial-nb" | "categorical-nb" => {
+                    c.family = "discrete-features".into();
+                    let hi = if algo == "bernoulli-nb" { 1 } else if algo == "multinomial-nb" { 5 } else { 3 };
+                    let k = 2;
+                    let mut lab: Vec<usize> = (0..n).map(|i| if i < k { i } else { rng.below(k) }).collect();
+                    rng.shuffle(&mut lab);
+                    let mut a: Rows = lab.iter().map(|l| (0..p).map(|_| ((rng.int(0, hi) + if rng.chance(0.5) { *l as i64 } else { 0 }).min(hi)) as f64).collect()).collect();
+                    // categorical NB wants every category 0..max present in the training data of a column
+                    if algo == "categorical-nb" { for j in 0..p { for v in 0..=hi as usize { if v < n { a[v][j] = v as f64; } } } }
+                    c.a = a;
+                    c.y = lab.iter().map(|l| *l as f64).collect();
+                    c.q = (0..nq).map(|_| (0..p).map(|_| rng.int(0, hi) as f64).collect()).collect();
+                }
+                "pca" | "pca-correlation" | "truncated-svd" => {
+                    c.family = "unsupervised".into();
+                    let p2 = rng.usize_in(2, 6);
+                    let n2 = rng.usize_in(p2 + 1, 30);
+                    let sc: Vec<f64> = (0..p2).map(|_| *rng.pick(&[1.0, 3.0, 0.2])).collect();
+                    c.a = (0..n2).map(|_| (0..p2).map(|j| sc[j] * rng.normal() + j as f64).collect()).collect();
+                    c.q = (0..nq).map(|_| (0..p2).map(|j| sc[j] * rng.normal() + j as f64).collect()).collect();
+                }
+                "one-hot" => {
+                    c.family = "categorical-columns".into();
+                    let p2 = rng.usize_in(1, 5);
+                    let cat: Vec<bool> = (0..p2).map(|_| rng.chance(0.6)).collect();
+                    let hi: Vec<i64> = (0..p2).map(|_| rng.int(1, 3)).collect();
+                    let n2 = rng.usize_in(5, 14);
+                    let mut a: Rows = (0..n2).map(|_| (0..p2).map(|j| if cat[j] { rng.int(0, hi[j]) as f64 } else { rng.normal() - 0.5 }).collect()).collect();
+                    for j in 0..p2 { if cat[j] { for v in 0..=hi[j] as usize { a[v][j] = v as f64; } } }
+                    c.q = (0..nq).map(|_| (0..p2).map(|j| if cat[j] { rng.int(0, hi[j]) as f64 } else { rng.normal() - 0.5 }).collect()).collect();
+                    c.a = a;
+                }
+                _ => {
+                    c.family = "metric-vectors".into();
+                    let n2 = rng.usize_in(4, 25);
+                    let mut yt: Vec<f64> = (0..n2).map(|i| if i < 2 { i as f64 } else { rng.below(2) as f64 }).collect();
+                    rng.shuffle(&mut yt);
+                    let yp: Vec<f64> = yt.iter().map(|v| if rng.chance(0.75) { *v } else { 1.0 - v }).collect();
+                    let sc: Vec<f64> = yt.iter().map(|v| if rng.chance(0.3) { rng.int(0, 4) as f64 / 4.0 } else { (0.5 * v + rng.uniform(0.0, 0.6)).min(1.0) }).collect();
+                    let rt: Vec<f64> = (0..n2).map(|_| 3.0 * rng.normal()).collect();
+                    let rp: Vec<f64> = rt.iter().map(|v| v + rng.normal()).collect();
+                    c.y = yt;
+                    c.q = vec![yp, sc, rt, rp];
+                }
+            }
+        }
+        c
+    }
+
+    pub fn search(rng: &mut Rng, thorough: bool, record: &mut dyn FnMut(&Case)) {
+        // corpus: the consequence of D12 measured in the design round — Lasso / elastic net on ndarray
+        // differed from dense by 87 % / 40 % and never returned on nalgebra
+        let x: Rows = vec![vec![-1.0, -2.0], vec![-2.0, -1.5], vec![-3.0, -4.5], vec![-4.0, -3.0], vec![-5.0, -6.5], vec![-6.0, -5.0], vec![-7.0, -9.0], vec![-8.0, -7.5]];
+        let y: Vec<f64> = vec![-1.2, -2.9, -5.1, -5.8, -8.4, -9.1, -12.2, -12.6];
+        for algo in ["lasso", "elastic-net", "logistic", "linear-qr"] {
+            let yy = if algo == "logistic" { y.iter().map(|v| if *v < -6.0 { 0.0 } else { 1.0 }).collect() } else { y.clone() };
+            record(&Case { entry: "estimator".into(), family: "corpus".into(), algo: algo.into(), a: x.clone(), y: yy, q: x[..3].to_vec(), sub: 12, ..Default::default() });
+        }
+        let reps = if thorough { 60 } else { 12 };
+        for _ in 0..reps {
+            for algo in DECOMPS.iter() {
+                record(&gen_decomp(rng, algo));
+            }
+        }
+        let reps = if thorough { 40 } else { 8 };
+        for _ in 0..reps {
+            for algo in REGRESSORS.iter().chain(CLASSIFIERS.iter()).chain(OTHERS.iter()) {
+                record(&gen_estimator(rng, algo));
+            }
+        }
+    }
 }
